@@ -18,8 +18,8 @@ Definition rep_scalar (k : scalar_kind) (v : pval) : Prop :=
   | KInt64, VInt z => (-9223372036854775808 <= z <= 9223372036854775807)%Z
   | KUint32, VInt z => (0 <= z <= 4294967295)%Z
   | KUint64, VInt z => (0 <= z <= 18446744073709551615)%Z
-  | KFloat32, VFloat b => float_finite true b = true
-  | KFloat64, VFloat b => float_finite false b = true
+  | KFloat32, VFloat b => b < 4294967296 /\ float_finite true b = true
+  | KFloat64, VFloat b => b < 18446744073709551616 /\ float_finite false b = true
   | KBool, VBool _ => True
   | KString, VStr s | KKey, VStr s => valid_utf8 s = true
   | KBytes, VBytes s => Forall is_byte s
@@ -34,7 +34,8 @@ Definition rep_scalar (k : scalar_kind) (v : pval) : Prop :=
 (* what the decoded value is allowed to differ in: the decimal text is normalised *)
 Definition scalar_equiv (k : scalar_kind) (v v' : pval) : Prop :=
   match k with
-  | KDecimal => exists s s', v = VMsg [(1, VStr s)] /\ dec_normalise s = Some s' /\ v' = mk_decimal s'
+  | KDecimal => exists s s', v = VMsg [(1, VStr s)] /\ dec_normalise s = Some s' /\ v' = mk_decimal s' /\
+                            exists a b, dec_parse s = Some a /\ dec_parse s' = Some b /\ dec_eq a b
   | _ => v' = v
   end.
 
@@ -55,7 +56,8 @@ Section ScalarRT.
 
   (* the assumed law of strconv (exercised on every run against the real functions) *)
   Definition float_roundtrip : Prop :=
-    forall is32 bits, float_finite is32 bits = true -> parse_float is32 (fmt_float is32 bits) = Some bits.
+    forall (is32 : bool) (bits : N), bits < (if is32 then 4294967296 else 18446744073709551616) ->
+      float_finite is32 bits = true -> parse_float is32 (fmt_float is32 bits) = Some bits.
   (* time.Parse(time.RFC3339, _) begins with the fast path modelled by parse_rfc3339 *)
   Definition time_parse_extends : Prop :=
     forall s r, parse_rfc3339 s = Some r -> parse_time s = Some r.
@@ -80,90 +82,1828 @@ Section ScalarRT.
       split; f_equal; lia.
   Qed.
 
-  Theorem scalar_roundtrip k v : rep_scalar k v ->
-    exists J, (exists txt, enc_scalar fmt_float k v = Ok txt /\ txt = print J) /\ wfb J = true /\
+  Lemma scalar_rt_KInt32 v : rep_scalar KInt32 v ->
+    exists J, (exists txt, enc_scalar fmt_float KInt32 v = Ok txt /\ txt = print J) /\ wfb J = true /\
               is_container J = false /\ J <> JNull /\
-              exists v', dec_scalar k J = Ok (Some v') /\ scalar_equiv k v v'.
+              exists v', dec_scalar KInt32 J = Ok (Some v') /\ scalar_equiv KInt32 v v'.
   Proof.
-    intros Hr. destruct k, v; cbn [rep_scalar] in Hr; try contradiction.
-    - (* int32 *) exists (JNum (print_Z z)). split; [eexists; split; reflexivity|].
+    intros Hr. destruct v; cbn [rep_scalar] in Hr; try contradiction.
+    exists (JNum (print_Z z)). split; [eexists; split; reflexivity|].
       split; [apply print_Z_valid_number|]. split; [reflexivity|]. split; [discriminate|].
       exists (VInt z). split; [|reflexivity]. cbn [CodecEncDec.dec_scalar dec_int]. unfold parse_signed.
       rewrite parse_print_Z. unfold in_rangeZ.
       replace ((-9223372036854775808 <=? z)%Z && (z <=? 9223372036854775807)%Z) with true by lia.
       replace ((-2147483648 <=? z)%Z && (z <=? 2147483647)%Z) with true by lia. reflexivity.
-    - (* int64 *) exists (JStr (print_Z z)). destruct (print_plain_str _ (print_Z_plain z)) as [Hp Hw].
+  Qed.
+
+  Lemma scalar_rt_KInt64 v : rep_scalar KInt64 v ->
+    exists J, (exists txt, enc_scalar fmt_float KInt64 v = Ok txt /\ txt = print J) /\ wfb J = true /\
+              is_container J = false /\ J <> JNull /\
+              exists v', dec_scalar KInt64 J = Ok (Some v') /\ scalar_equiv KInt64 v v'.
+  Proof.
+    intros Hr. destruct v; cbn [rep_scalar] in Hr; try contradiction.
+    exists (JStr (print_Z z)). destruct (print_plain_str _ (print_Z_plain z)) as [Hp Hw].
       split; [eexists; split; [reflexivity|symmetry; exact Hp]|]. split; [exact Hw|]. split; [reflexivity|]. split; [discriminate|].
       exists (VInt z). split; [|reflexivity]. cbn [CodecEncDec.dec_scalar dec_int]. unfold parse_signed.
       rewrite parse_print_Z. unfold in_rangeZ.
       replace ((-9223372036854775808 <=? z)%Z && (z <=? 9223372036854775807)%Z) with true by lia. reflexivity.
-    - (* uint32 *) exists (JNum (print_Z z)). split; [eexists; split; reflexivity|].
+  Qed.
+
+  Lemma scalar_rt_KUint32 v : rep_scalar KUint32 v ->
+    exists J, (exists txt, enc_scalar fmt_float KUint32 v = Ok txt /\ txt = print J) /\ wfb J = true /\
+              is_container J = false /\ J <> JNull /\
+              exists v', dec_scalar KUint32 J = Ok (Some v') /\ scalar_equiv KUint32 v v'.
+  Proof.
+    intros Hr. destruct v; cbn [rep_scalar] in Hr; try contradiction.
+    exists (JNum (print_Z z)). split; [eexists; split; reflexivity|].
       split; [apply print_Z_valid_number|]. split; [reflexivity|]. split; [discriminate|].
       exists (VInt z). split; [|reflexivity]. cbn [CodecEncDec.dec_scalar dec_int]. unfold parse_signed.
       rewrite parse_print_Z. unfold in_rangeZ.
       replace ((-9223372036854775808 <=? z)%Z && (z <=? 9223372036854775807)%Z) with true by lia.
       replace ((0 <=? z)%Z && (z <=? 4294967295)%Z) with true by lia. reflexivity.
-    - (* uint64 *) exists (JStr (print_Z z)). destruct (print_plain_str _ (print_Z_plain z)) as [Hp Hw].
+  Qed.
+
+  Lemma scalar_rt_KUint64 v : rep_scalar KUint64 v ->
+    exists J, (exists txt, enc_scalar fmt_float KUint64 v = Ok txt /\ txt = print J) /\ wfb J = true /\
+              is_container J = false /\ J <> JNull /\
+              exists v', dec_scalar KUint64 J = Ok (Some v') /\ scalar_equiv KUint64 v v'.
+  Proof.
+    intros Hr. destruct v; cbn [rep_scalar] in Hr; try contradiction.
+    exists (JStr (print_Z z)). destruct (print_plain_str _ (print_Z_plain z)) as [Hp Hw].
       split; [eexists; split; [reflexivity|symmetry; exact Hp]|]. split; [exact Hw|]. split; [reflexivity|]. split; [discriminate|].
       exists (VInt z). split; [|reflexivity]. cbn [CodecEncDec.dec_scalar dec_int]. unfold parse_unsigned.
       rewrite parse_N_print_nat by lia. rewrite Z2N.id by lia. unfold max_u64.
       replace (z <=? 18446744073709551615)%Z with true by lia. reflexivity.
-    - (* float32 *) exists (JNum (fmt_float true bits)).
+  Qed.
+
+  Lemma scalar_rt_KFloat32 v : rep_scalar KFloat32 v ->
+    exists J, (exists txt, enc_scalar fmt_float KFloat32 v = Ok txt /\ txt = print J) /\ wfb J = true /\
+              is_container J = false /\ J <> JNull /\
+              exists v', dec_scalar KFloat32 J = Ok (Some v') /\ scalar_equiv KFloat32 v v'.
+  Proof.
+    intros Hr. destruct v; cbn [rep_scalar] in Hr; try contradiction. destruct Hr as [Hbits Hr].
+    exists (JNum (fmt_float true bits)).
       split. { eexists. split; [reflexivity|]. cbn [print]. unfold enc_float, float_is_nan, float_is_inf.
                unfold float_finite in Hr. destruct (float_exp_all_ones true bits); [discriminate|]. reflexivity. }
       split; [cbn [wfb]; apply Hfloat_ok; exact Hr|]. split; [reflexivity|]. split; [discriminate|].
-      exists (VFloat bits). split; [|reflexivity]. cbn [CodecEncDec.dec_scalar dec_float]. rewrite Hfloat_rt by exact Hr. reflexivity.
-    - (* float64 *) exists (JNum (fmt_float false bits)).
+      exists (VFloat bits). split; [|reflexivity]. cbn [CodecEncDec.dec_scalar dec_float]. rewrite Hfloat_rt by assumption. reflexivity.
+  Qed.
+
+  Lemma scalar_rt_KFloat64 v : rep_scalar KFloat64 v ->
+    exists J, (exists txt, enc_scalar fmt_float KFloat64 v = Ok txt /\ txt = print J) /\ wfb J = true /\
+              is_container J = false /\ J <> JNull /\
+              exists v', dec_scalar KFloat64 J = Ok (Some v') /\ scalar_equiv KFloat64 v v'.
+  Proof.
+    intros Hr. destruct v; cbn [rep_scalar] in Hr; try contradiction. destruct Hr as [Hbits Hr].
+    exists (JNum (fmt_float false bits)).
       split. { eexists. split; [reflexivity|]. cbn [print]. unfold enc_float, float_is_nan, float_is_inf.
                unfold float_finite in Hr. destruct (float_exp_all_ones false bits); [discriminate|]. reflexivity. }
       split; [cbn [wfb]; apply Hfloat_ok; exact Hr|]. split; [reflexivity|]. split; [discriminate|].
-      exists (VFloat bits). split; [|reflexivity]. cbn [CodecEncDec.dec_scalar dec_float]. rewrite Hfloat_rt by exact Hr. reflexivity.
-    - (* bool *) exists (JBool b). split; [eexists; split; [reflexivity|destruct b; reflexivity]|].
+      exists (VFloat bits). split; [|reflexivity]. cbn [CodecEncDec.dec_scalar dec_float]. rewrite Hfloat_rt by assumption. reflexivity.
+  Qed.
+
+  Lemma scalar_rt_KBool v : rep_scalar KBool v ->
+    exists J, (exists txt, enc_scalar fmt_float KBool v = Ok txt /\ txt = print J) /\ wfb J = true /\
+              is_container J = false /\ J <> JNull /\
+              exists v', dec_scalar KBool J = Ok (Some v') /\ scalar_equiv KBool v v'.
+  Proof.
+    intros Hr. destruct v; cbn [rep_scalar] in Hr; try contradiction.
+    exists (JBool b). split; [eexists; split; [reflexivity|destruct b; reflexivity]|].
       split; [reflexivity|]. split; [reflexivity|]. split; [discriminate|]. exists (VBool b). split; reflexivity.
-    - (* string *) exists (JStr s). split; [eexists; split; [cbn [CodecEnc.enc_scalar]; rewrite escape_spec, Hr; reflexivity|reflexivity]|].
+  Qed.
+
+  Lemma scalar_rt_KString v : rep_scalar KString v ->
+    exists J, (exists txt, enc_scalar fmt_float KString v = Ok txt /\ txt = print J) /\ wfb J = true /\
+              is_container J = false /\ J <> JNull /\
+              exists v', dec_scalar KString J = Ok (Some v') /\ scalar_equiv KString v v'.
+  Proof.
+    intros Hr. destruct v; cbn [rep_scalar] in Hr; try contradiction.
+    exists (JStr s). split; [eexists; split; [cbn [CodecEnc.enc_scalar]; rewrite escape_spec, Hr; reflexivity|reflexivity]|].
       split; [exact Hr|]. split; [reflexivity|]. split; [discriminate|]. exists (VStr s). split; reflexivity.
-    - (* bytes *) exists (JStr (b64_encode s)).
+  Qed.
+
+  Lemma scalar_rt_KBytes v : rep_scalar KBytes v ->
+    exists J, (exists txt, enc_scalar fmt_float KBytes v = Ok txt /\ txt = print J) /\ wfb J = true /\
+              is_container J = false /\ J <> JNull /\
+              exists v', dec_scalar KBytes J = Ok (Some v') /\ scalar_equiv KBytes v v'.
+  Proof.
+    intros Hr. destruct v; cbn [rep_scalar] in Hr; try contradiction.
+    exists (JStr (b64_encode s)).
       assert (Hpl : Forall plain (b64_encode s)).
       { pose proof (b64_encode_chars s Hr) as H. eapply Forall_impl; [|exact H]. unfold b64_out_char, plain. intros; lia. }
       destruct (print_plain_str _ Hpl) as [Hp Hw].
       split; [eexists; split; [cbn [CodecEnc.enc_scalar]; rewrite escape_spec; cbn [wfb] in Hw; rewrite Hw; reflexivity|reflexivity]|].
       split; [exact Hw|]. split; [reflexivity|]. split; [discriminate|].
       exists (VBytes s). split; [|reflexivity]. cbn [CodecEncDec.dec_scalar]. rewrite b64_lenient_encode by exact Hr. reflexivity.
-    - (* key *) exists (JStr s). split; [eexists; split; [cbn [CodecEnc.enc_scalar]; rewrite escape_spec, Hr; reflexivity|reflexivity]|].
+  Qed.
+
+  Lemma scalar_rt_KKey v : rep_scalar KKey v ->
+    exists J, (exists txt, enc_scalar fmt_float KKey v = Ok txt /\ txt = print J) /\ wfb J = true /\
+              is_container J = false /\ J <> JNull /\
+              exists v', dec_scalar KKey J = Ok (Some v') /\ scalar_equiv KKey v v'.
+  Proof.
+    intros Hr. destruct v; cbn [rep_scalar] in Hr; try contradiction.
+    exists (JStr s). split; [eexists; split; [cbn [CodecEnc.enc_scalar]; rewrite escape_spec, Hr; reflexivity|reflexivity]|].
       split; [exact Hr|]. split; [reflexivity|]. split; [discriminate|]. exists (VStr s). split; reflexivity.
-    - (* date *) destruct Hr as (y & mo & d & -> & Hy & Hmo & Hd).
-      pose proof (days_in_le mo y) as Hdi.
-      destruct (date_string_shape y mo d ltac:(lia) ltac:(lia) ltac:(lia)) as (a & b & c & Hds & _ & _ & _ & Hdig & _).
-      assert (Hpl : Forall plain (date_string y mo d)).
-      { rewrite Hds. rewrite !forallb_app in Hdig. apply andb_true_iff in Hdig as [Ha Hbc]. apply andb_true_iff in Hbc as [Hb Hc].
-        repeat (apply Forall_app; split); try (apply digits_plain; assumption); repeat constructor; unfold plain; lia. }
-      destruct (print_plain_str _ Hpl) as [Hp Hw].
-      exists (JStr (date_string y mo d)).
-      split. { eexists. split; [|reflexivity]. cbn [CodecEnc.enc_scalar]. unfold field_int. cbn [msg_get N.eqb Pos.eqb obind].
-               rewrite escape_spec. cbn [wfb] in Hw. rewrite Hw. reflexivity. }
-      split; [exact Hw|]. split; [reflexivity|]. split; [discriminate|].
-      exists (VMsg [(1, VInt y); (2, VInt mo); (3, VInt d)]). split; [|reflexivity].
-      cbn [CodecEncDec.dec_scalar]. rewrite date_roundtrip by lia. f_equal. f_equal.
-      unfold mk_date, wkt_fields. cbn [filter snd is_zero].
-      replace (Z.eqb y 0) with false by lia. replace (Z.eqb mo 0) with false by lia. replace (Z.eqb d 0) with false by lia.
-      reflexivity.
-    - (* decimal *) destruct Hr as (s & s' & -> & Hn & Hv).
+  Qed.
+
+  Lemma dec_scalar_date s : dec_scalar KDate (JStr s) =
+    match date_from_string s with Some (y, mo, d) => Ok (Some (mk_date y mo d)) | None => Err "date" end.
+  Proof. reflexivity. Qed.
+
+  Lemma enc_scalar_date y mo d : enc_scalar fmt_float KDate (VMsg [(1, VInt y); (2, VInt mo); (3, VInt d)]) = escape (date_string y mo d).
+  Proof. reflexivity. Qed.
+
+  Lemma mk_date_nz y mo d : y <> 0%Z -> mo <> 0%Z -> d <> 0%Z -> mk_date y mo d = VMsg [(1, VInt y); (2, VInt mo); (3, VInt d)].
+  Proof.
+    intros Hy Hmo Hd. unfold mk_date, wkt_fields. cbn [filter snd is_zero].
+    replace (Z.eqb y 0) with false by lia. replace (Z.eqb mo 0) with false by lia. replace (Z.eqb d 0) with false by lia.
+    reflexivity.
+  Qed.
+
+  Lemma date_string_plain y mo d : (1 <= y <= 9999)%Z -> (1 <= mo <= 12)%Z -> (1 <= d <= days_in mo y)%Z ->
+    Forall plain (date_string y mo d).
+  Proof.
+    intros Hy Hmo Hd. pose proof (days_in_le mo y) as Hdi.
+    destruct (date_string_shape y mo d ltac:(lia) ltac:(lia) ltac:(lia)) as (a & b & c & Hds & _ & _ & _ & Hdig & _).
+    rewrite Hds. rewrite !forallb_app in Hdig. apply andb_true_iff in Hdig as [Ha Hbc]. apply andb_true_iff in Hbc as [Hb Hc].
+    repeat (apply Forall_app; split); try (apply digits_plain; assumption); repeat constructor; unfold plain; lia.
+  Qed.
+
+  Lemma date_core t y mo d : Forall plain t -> date_string y mo d = t -> date_from_string t = Some (y, mo, d) ->
+    y <> 0%Z -> mo <> 0%Z -> d <> 0%Z ->
+    exists J, (exists txt, enc_scalar fmt_float KDate (VMsg [(1, VInt y); (2, VInt mo); (3, VInt d)]) = Ok txt /\ txt = print J) /\
+              wfb J = true /\ is_container J = false /\ J <> JNull /\
+              exists v', dec_scalar KDate J = Ok (Some v') /\
+                         scalar_equiv KDate (VMsg [(1, VInt y); (2, VInt mo); (3, VInt d)]) v'.
+  Proof.
+    intros Hpl Hfmt Hpd Hy Hmo Hd. destruct (print_plain_str _ Hpl) as [Hp Hw].
+    exists (JStr t).
+    split. { exists (print (JStr t)). split; [|reflexivity]. rewrite enc_scalar_date, Hfmt, escape_spec.
+             change (wfb (JStr t)) with (valid_utf8 t) in Hw. rewrite Hw. reflexivity. }
+    split; [exact Hw|]. split; [reflexivity|]. split; [discriminate|].
+    exists (VMsg [(1, VInt y); (2, VInt mo); (3, VInt d)]). split; [|reflexivity].
+    rewrite dec_scalar_date, Hpd. rewrite mk_date_nz by assumption. reflexivity.
+  Qed.
+
+  Lemma scalar_rt_KDate v : rep_scalar KDate v ->
+    exists J, (exists txt, enc_scalar fmt_float KDate v = Ok txt /\ txt = print J) /\ wfb J = true /\
+              is_container J = false /\ J <> JNull /\
+              exists v', dec_scalar KDate J = Ok (Some v') /\ scalar_equiv KDate v v'.
+  Proof.
+    intros Hr. destruct v; cbn [rep_scalar] in Hr; try contradiction.
+    destruct Hr as (y & mo & d & -> & Hy & Hmo & Hd).
+    apply (date_core (date_string y mo d) y mo d (date_string_plain y mo d Hy Hmo Hd) eq_refl); try lia.
+    apply date_roundtrip; lia.
+  Qed.
+
+  Lemma scalar_rt_KDecimal v : rep_scalar KDecimal v ->
+    exists J, (exists txt, enc_scalar fmt_float KDecimal v = Ok txt /\ txt = print J) /\ wfb J = true /\
+              is_container J = false /\ J <> JNull /\
+              exists v', dec_scalar KDecimal J = Ok (Some v') /\ scalar_equiv KDecimal v v'.
+  Proof.
+    intros Hr. destruct v; cbn [rep_scalar] in Hr; try contradiction.
+    destruct Hr as (s & s' & -> & Hn & Hv).
       exists (JStr s). split; [eexists; split; [cbn [CodecEnc.enc_scalar]; unfold field_bytes; cbn [msg_get N.eqb Pos.eqb obind]; rewrite escape_spec, Hv; reflexivity|reflexivity]|].
       split; [exact Hv|]. split; [reflexivity|]. split; [discriminate|].
       exists (mk_decimal s'). split; [cbn [CodecEncDec.dec_scalar]; rewrite Hn; reflexivity|].
-      exists s, s'. repeat split; assumption.
-    - (* timestamp *) destruct Hr as (s & ns & Hm & Hrange).
-      destruct (field_int_mk_timestamp s ns fields Hm) as [H1 H2].
-      pose proof (parse_format_rfc3339 s ns Hrange) as Hpf.
-      set (t := format_rfc3339nano s ns) in *.
-      assert (Hpl : Forall plain t).
-      { (* every character of a formatted instant is a digit, '-', ':', '.', 'T' or 'Z' *)
-        pose proof (format_rfc3339_chars s ns Hrange) as Hc. eapply Forall_impl; [|exact Hc].
-        intros c [Hd|[->|[->|[->|[->| ->]]]]]; unfold plain; try lia. unfold is_digit in Hd. lia. }
-      destruct (print_plain_str _ Hpl) as [Hp Hw].
-      exists (JStr t). split; [eexists; split; [cbn [CodecEnc.enc_scalar]; rewrite H1; cbn [obind]; rewrite H2; cbn [obind]; fold t; rewrite escape_spec; cbn [wfb] in Hw; rewrite Hw; reflexivity|reflexivity]|].
-      split; [exact Hw|]. split; [reflexivity|]. split; [discriminate|].
-      exists (mk_timestamp s ns). split; [|cbn [scalar_equiv]; rewrite Hm; reflexivity].
-      cbn [CodecEncDec.dec_scalar]. rewrite (Htime _ _ Hpf). reflexivity.
+      exists s, s'. split; [reflexivity|]. split; [exact Hn|]. split; [reflexivity|]. apply dec_normalise_numeric. exact Hn.
+  Qed.
+
+  Lemma dec_scalar_ts s : dec_scalar KTimestamp (JStr s) =
+    match parse_time s with Some (sec, ns) => Ok (Some (mk_timestamp sec ns)) | None => Err "time.Parse" end.
+  Proof. reflexivity. Qed.
+
+  Lemma enc_scalar_ts m : enc_scalar fmt_float KTimestamp (VMsg m) =
+    obind (field_int 1 m) (fun s => obind (field_int 2 m) (fun ns => escape (format_rfc3339nano s ns))).
+  Proof. reflexivity. Qed.
+
+  Lemma ts_plain s ns : ts_range s ns -> Forall plain (format_rfc3339nano s ns).
+  Proof.
+    intros Hrange. pose proof (format_rfc3339_chars s ns Hrange) as Hc. eapply Forall_impl; [|exact Hc].
+    intros c [Hd|[->|[->|[->|[->| ->]]]]]; unfold plain; try lia. unfold is_digit in Hd. lia.
+  Qed.
+
+  (* the text is kept abstract here: the kernel must not unfold the formatter when it compares
+     [wfb (JStr t)] with [valid_utf8 t] *)
+  Lemma ts_core t s ns m : Forall plain t -> field_int 1 m = Ok s -> field_int 2 m = Ok ns ->
+    format_rfc3339nano s ns = t -> parse_time t = Some (s, ns) -> VMsg m = mk_timestamp s ns ->
+    exists J, (exists txt, enc_scalar fmt_float KTimestamp (VMsg m) = Ok txt /\ txt = print J) /\ wfb J = true /\
+              is_container J = false /\ J <> JNull /\
+              exists v', dec_scalar KTimestamp J = Ok (Some v') /\ scalar_equiv KTimestamp (VMsg m) v'.
+  Proof.
+    intros Hpl H1 H2 Hfmt Hpt Hm. destruct (print_plain_str _ Hpl) as [Hp Hw].
+    exists (JStr t).
+    split. { exists (print (JStr t)). split; [|reflexivity].
+             rewrite enc_scalar_ts, H1. unfold obind at 1. rewrite H2. unfold obind at 1. rewrite Hfmt, escape_spec.
+             change (wfb (JStr t)) with (valid_utf8 t) in Hw. rewrite Hw. reflexivity. }
+    split; [exact Hw|]. split; [reflexivity|]. split; [discriminate|].
+    exists (mk_timestamp s ns). split; [|unfold scalar_equiv; symmetry; exact Hm].
+    rewrite dec_scalar_ts, Hpt. reflexivity.
+  Qed.
+
+  Lemma scalar_rt_KTimestamp v : rep_scalar KTimestamp v ->
+    exists J, (exists txt, enc_scalar fmt_float KTimestamp v = Ok txt /\ txt = print J) /\ wfb J = true /\
+              is_container J = false /\ J <> JNull /\
+              exists v', dec_scalar KTimestamp J = Ok (Some v') /\ scalar_equiv KTimestamp v v'.
+  Proof.
+    intros Hr. destruct v; cbn [rep_scalar] in Hr; try contradiction.
+    destruct Hr as (s & ns & Hm & Hrange).
+    destruct (field_int_mk_timestamp s ns fields Hm) as [H1 H2].
+    exact (ts_core (format_rfc3339nano s ns) s ns fields (ts_plain s ns Hrange) H1 H2 eq_refl
+             (Htime _ _ (parse_format_rfc3339 s ns Hrange)) Hm).
+  Qed.
+
+  Theorem scalar_roundtrip k v : rep_scalar k v ->
+    exists J, (exists txt, enc_scalar fmt_float k v = Ok txt /\ txt = print J) /\ wfb J = true /\
+              is_container J = false /\ J <> JNull /\
+              exists v', dec_scalar k J = Ok (Some v') /\ scalar_equiv k v v'.
+  Proof.
+    destruct k; [apply scalar_rt_KInt32|apply scalar_rt_KInt64|apply scalar_rt_KUint32|apply scalar_rt_KUint64|
+                 apply scalar_rt_KFloat32|apply scalar_rt_KFloat64|apply scalar_rt_KBool|apply scalar_rt_KString|
+                 apply scalar_rt_KBytes|apply scalar_rt_KKey|apply scalar_rt_KDate|apply scalar_rt_KDecimal|
+                 apply scalar_rt_KTimestamp].
   Qed.
 End ScalarRT.
+
+(* what the structural proof needs from a scalar decoding layer [dsc]: every representable scalar
+   is printed as a token that [dsc] reads back to an equivalent value *)
+Definition scalar_rt_ok (fmt_float : bool -> N -> bytes)
+           (dsc : scalar_kind -> jvalue -> outcome (option pval)) : Prop :=
+  forall k v, rep_scalar k v ->
+    exists J, (exists txt, enc_scalar fmt_float k v = Ok txt /\ txt = print J) /\ wfb J = true /\
+              is_container J = false /\ J <> JNull /\
+              exists v', dsc k J = Ok (Some v') /\ scalar_equiv k v v'.
+
+Lemma scalar_rt_own fmt_float parse_float parse_time :
+  float_text_ok fmt_float -> float_roundtrip fmt_float parse_float -> time_parse_extends parse_time ->
+  scalar_rt_ok fmt_float (dec_scalar parse_float parse_time).
+Proof. intros H1 H2 H3 k v. apply scalar_roundtrip; assumption. Qed.
+
+(* ================================================================ structure *)
+(* ================================================================ message algebra *)
+Lemma msg_get_put_same n v m : msg_get n (msg_put n v m) = Some v.
+Proof.
+  induction m as [|[k w] r IH]; cbn [msg_put msg_get].
+  - rewrite N.eqb_refl. reflexivity.
+  - destruct (k =? n) eqn:E.
+    + cbn [msg_get]. rewrite N.eqb_refl. reflexivity.
+    + destruct (n <? k) eqn:L; cbn [msg_get].
+      * rewrite N.eqb_refl. reflexivity.
+      * rewrite E. exact IH.
+Qed.
+
+Lemma msg_get_put_other x n v m : x <> n -> msg_get x (msg_put n v m) = msg_get x m.
+Proof.
+  intros H. induction m as [|[k w] r IH]; cbn [msg_put msg_get].
+  - replace (n =? x) with false by lia. reflexivity.
+  - destruct (k =? n) eqn:E.
+    + cbn [msg_get]. replace (n =? x) with false by lia. replace (k =? x) with false by lia. reflexivity.
+    + destruct (n <? k) eqn:L; cbn [msg_get].
+      * replace (n =? x) with false by lia. reflexivity.
+      * destruct (k =? x); [reflexivity|exact IH].
+Qed.
+
+Lemma msg_get_del_same n m : msg_get n (msg_del n m) = None.
+Proof.
+  induction m as [|[k w] r IH]; cbn [msg_del msg_get]; [reflexivity|].
+  destruct (k =? n) eqn:E; [exact IH|]. cbn [msg_get]. rewrite E. exact IH.
+Qed.
+
+Lemma msg_get_del_other x n m : x <> n -> msg_get x (msg_del n m) = msg_get x m.
+Proof.
+  intros H. induction m as [|[k w] r IH]; cbn [msg_del msg_get]; [reflexivity|].
+  destruct (k =? n) eqn:E.
+  - replace (k =? x) with false by lia. exact IH.
+  - cbn [msg_get]. destruct (k =? x); [reflexivity|exact IH].
+Qed.
+
+Lemma msg_get_clear_all x S : forall m,
+  msg_get x (msg_clear_all S m) = if existsb (N.eqb x) S then None else msg_get x m.
+Proof.
+  unfold msg_clear_all. induction S as [|s r IH]; intros m; cbn [fold_left existsb]; [reflexivity|].
+  rewrite IH. destruct (existsb (N.eqb x) r) eqn:Er; [rewrite orb_true_r; reflexivity|].
+  rewrite orb_false_r. destruct (x =? s) eqn:E.
+  - apply N.eqb_eq in E. subst. apply msg_get_del_same.
+  - apply msg_get_del_other. lia.
+Qed.
+
+(* a value that Set keeps: explicit presence or non-zero, and not an empty list / map *)
+Definition kept (explicit : bool) (v : pval) : bool :=
+  match v with
+  | VList [] | VMap [] => false
+  | _ => explicit || negb (is_zero v)
+  end.
+
+Lemma msg_set_kept e S n v m : kept e v = true ->
+  msg_set e S n v m = msg_put n v (msg_clear_all S m).
+Proof.
+  unfold kept, msg_set. intros H.
+  destruct v as [z|b|s|s|bits|z|fs|[|a l]|[|a l]]; try discriminate;
+    destruct e; cbn [orb negb] in *; try reflexivity; try (rewrite negb_true_iff in H; rewrite H; reflexivity).
+Qed.
+
+Lemma msg_get_set_same e S n v m : kept e v = true -> msg_get n (msg_set e S n v m) = Some v.
+Proof. intros H. rewrite msg_set_kept by exact H. apply msg_get_put_same. Qed.
+
+Lemma msg_get_set_other e S n v m x : kept e v = true -> x <> n ->
+  msg_get x (msg_set e S n v m) = if existsb (N.eqb x) S then None else msg_get x m.
+Proof. intros H Hx. rewrite msg_set_kept by exact H. rewrite msg_get_put_other by exact Hx. apply msg_get_clear_all. Qed.
+
+(* ================================================================ paths *)
+(* the message a proto path leads to when every intermediate message is created on demand *)
+Fixpoint hole (a : list N) (m : msg) : msg :=
+  match a with
+  | [] => m
+  | x :: r => match msg_get x m with Some (VMsg s) => hole r s | _ => hole r [] end
+  end.
+
+Lemma present_nil_msg path : present path [] = None.
+Proof. destruct path as [|n [|n2 r]]; reflexivity. Qed.
+
+Lemma present_app a r m : r <> [] -> present (a ++ r) m = present r (hole a m).
+Proof.
+  intros Hr. revert m. induction a as [|x a IH]; intros m; [reflexivity|].
+  cbn [app hole]. destruct (a ++ r) as [|y t] eqn:E.
+  { destruct a; [cbn in E; congruence|discriminate]. }
+  change (present (x :: y :: t) m) with (match msg_get x m with Some (VMsg sub) => present (y :: t) sub | _ => None end).
+  destruct (msg_get x m) as [[]|]; try apply IH; rewrite <- (IH []); destruct t; reflexivity.
+Qed.
+
+Lemma present_cons_congr x rq m m' : msg_get x m' = msg_get x m -> present (x :: rq) m' = present (x :: rq) m.
+Proof. intros H. destruct rq as [|y t]; cbn [present]; rewrite H; reflexivity. Qed.
+
+Definition sub_at (z : N) (m : msg) : msg := match msg_get z m with Some (VMsg s) => s | _ => [] end.
+
+Lemma mutable_nil_cases z m : exists m1,
+  msg_mutable [] z m = (sub_at z m, m1) /\ (forall x, x <> z -> msg_get x m1 = msg_get x m).
+Proof.
+  unfold msg_mutable, sub_at. destruct (msg_get z m) as [[]|] eqn:Ez;
+    try (eexists; split; [reflexivity|]; intros x Hx; cbn [msg_clear_all fold_left]; apply msg_get_put_other; exact Hx).
+  eexists; split; [reflexivity|]. intros; reflexivity.
+Qed.
+
+Lemma hole_cons z a m : hole (z :: a) m = hole a (sub_at z m).
+Proof. unfold sub_at. cbn [hole]. destruct (msg_get z m) as [[]|]; reflexivity. Qed.
+
+(* holder runs [k] on the hole of the path's prefix and rebuilds the messages on the way back *)
+Lemma holder_spec a n k : forall m h',
+  k n (hole a m) = Ok h' ->
+  exists m', holder (a ++ [n]) m k = Ok m' /\ hole a m' = h' /\
+    (forall c x y ra rq, a = c ++ y :: ra -> x <> y ->
+       present (c ++ x :: rq) m' = present (c ++ x :: rq) m).
+Proof.
+  induction a as [|z a IH]; intros m h' Hk.
+  - cbn [app holder hole] in *. exists h'. split; [exact Hk|]. split; [reflexivity|].
+    intros c x y ra rq E. destruct c; discriminate.
+  - rewrite hole_cons in Hk.
+    assert (Hstep : holder ((z :: a) ++ [n]) m k =
+                    let '(sub, m1) := msg_mutable [] z m in
+                    obind (holder (a ++ [n]) sub k) (fun sub' => Ok (msg_put z (VMsg sub') m1))).
+    { cbn [app]. destruct (a ++ [n]) as [|y t] eqn:E; [destruct a; discriminate|]. reflexivity. }
+    rewrite Hstep. clear Hstep. destruct (mutable_nil_cases z m) as (m1 & Hmm & Hm1). rewrite Hmm.
+    destruct (IH (sub_at z m) h' Hk) as (sub' & Hh & Hhole & Hframe).
+    rewrite Hh. cbn [obind].
+    exists (msg_put z (VMsg sub') m1). split; [reflexivity|]. split.
+    + rewrite hole_cons. unfold sub_at. rewrite msg_get_put_same. exact Hhole.
+    + intros c x y ra rq E Hxy. destruct c as [|c0 c]; cbn [app] in E.
+      * injection E as <- _. cbn [app]. apply present_cons_congr.
+        rewrite msg_get_put_other by exact Hxy. apply Hm1. exact Hxy.
+      * injection E as <- E. cbn [app].
+        assert (Hne : c ++ x :: rq <> []) by (destruct c; discriminate).
+        destruct (c ++ x :: rq) as [|q0 qr] eqn:Eq; [congruence|].
+        change (present (z :: q0 :: qr) (msg_put z (VMsg sub') m1)) with
+          (match msg_get z (msg_put z (VMsg sub') m1) with Some (VMsg s) => present (q0 :: qr) s | _ => None end).
+        change (present (z :: q0 :: qr) m) with
+          (match msg_get z m with Some (VMsg s) => present (q0 :: qr) s | _ => None end).
+        rewrite msg_get_put_same. rewrite <- Eq. rewrite (Hframe c x y ra rq E Hxy).
+        unfold sub_at. destruct (msg_get z m) as [[]|]; try reflexivity; apply present_nil_msg.
+Qed.
+
+Lemma oneof_conflict_clear a n S : forall m,
+  (forall s, In s S -> msg_get s (hole a m) = None) -> oneof_conflict (a ++ [n]) S m = false.
+Proof.
+  induction a as [|x a IH]; intros m H.
+  - cbn [app oneof_conflict]. cbn [hole] in H. apply not_true_is_false. intros E.
+    apply existsb_exists in E as (s & Hs & Hh). unfold msg_has in Hh. rewrite (H s Hs) in Hh. discriminate.
+  - assert (Hstep : oneof_conflict ((x :: a) ++ [n]) S m =
+                    match msg_get x m with Some (VMsg sub) => oneof_conflict (a ++ [n]) S sub | _ => false end).
+    { cbn [app]. destruct (a ++ [n]) eqn:E; [destruct a; discriminate|]. reflexivity. }
+    rewrite Hstep. destruct (msg_get x m) as [[]|] eqn:Ex; try reflexivity.
+    apply IH. intros s Hs. specialize (H s Hs). rewrite hole_cons in H. unfold sub_at in H. rewrite Ex in H. exact H.
+Qed.
+
+Lemma present_last a n m : present (a ++ [n]) m = msg_get n (hole a m).
+Proof. rewrite present_app by discriminate. reflexivity. Qed.
+
+(* ================================================================ representable messages, equivalence *)
+Inductive opt_rel {A} (R : A -> A -> Prop) : option A -> option A -> Prop :=
+| OR_none : opt_rel R None None
+| OR_some x y : R x y -> opt_rel R (Some x) (Some y).
+
+Definition paths_diverge (p q : list N) : Prop :=
+  exists c x y rp rq, p = c ++ x :: rp /\ q = c ++ y :: rq /\ x <> y.
+
+Section RT.
+  Variable fmt_float : bool -> N -> bytes.
+  Variable any_inner : bytes -> bytes -> outcome bytes.
+  Variable dsc : scalar_kind -> jvalue -> outcome (option pval).
+  Variable raw : jvalue -> bytes.
+  Hypothesis Hraw_ne : forall j, wfb j = true -> raw j <> [].
+  Variable mapchk : bool.
+  Variable env : env.
+
+  (* the properties whose proto path addresses a field: an exposed oneof stands for its members *)
+  Definition prop_leaves (p : property) : list property :=
+    match p_path p with
+    | [] => match p_ty p with
+            | FOneof r => match lookup env r with Some (SOneof qs) => qs | _ => [] end
+            | _ => []
+            end
+    | _ => [p]
+    end.
+  Definition leaves (ps : list property) : list property := flat_map prop_leaves ps.
+
+  (* static sanity of a property list (what the reflector produces for a proto message) *)
+  Record props_ok (ps : list property) : Prop := {
+    po_names : NoDup (map p_json ps);
+    po_nodup : NoDup (leaves ps);
+    po_paths : forall l, In l (leaves ps) -> p_path l <> [];
+    po_diverge : forall l1 l2, In l1 (leaves ps) -> In l2 (leaves ps) -> l1 <> l2 ->
+                 paths_diverge (p_path l1) (p_path l2);
+    po_siblings : forall l a n s, In l (leaves ps) -> p_path l = a ++ [n] -> In s (p_siblings l) ->
+                  s <> n /\ exists l2, In l2 (leaves ps) /\ p_path l2 = a ++ [s];
+    po_exposed : forall p, In p ps -> p_path p = [] ->
+                 exists r qs, p_ty p = FOneof r /\ lookup env r = Some (SOneof qs);
+    po_utf8 : forall p, In p ps -> valid_utf8 (p_json p) = true;
+    po_utf8_leaves : forall l, In l (leaves ps) -> valid_utf8 (p_json l) = true
+  }.
+
+  (* the JSON text encodeAny emits for the payload of a j5 Any *)
+  Definition any_text (m : msg) : outcome bytes :=
+    match msg_get 3 m with
+    | Some (VBytes js) => Ok js
+    | _ => any_inner (sfield 1 m) (sfield 2 m)
+    end.
+
+  (* arrays and maps hold scalars, enums, objects or oneofs (the classes the reflector builds) *)
+  Definition item_ok (t : field_ty) : bool :=
+    match t with FScalar _ | FEnum _ | FObject _ | FOneof _ => true | _ => false end.
+
+  (* members of an exposed oneof property *)
+  Definition exposed_members (p : property) : list property :=
+    match p_path p with [] => prop_leaves p | _ => [] end.
+
+  Inductive rep_value : field_ty -> pval -> Prop :=
+  | RV_scalar k v : rep_scalar k v -> rep_value (FScalar k) v
+  | RV_enum r pre opts n name :
+      lookup env r = Some (SEnum pre opts) -> option_by_number opts n = Some name ->
+      option_by_name pre opts name = Some n -> valid_utf8 name = true -> rep_value (FEnum r) (VEnum n)
+  | RV_object r ps m :
+      lookup env r = Some (SObject ps) -> rep_props ps m -> rep_value (FObject r) (VMsg m)
+  | RV_oneof r ps m :
+      lookup env r = Some (SOneof ps) -> rep_props ps m ->
+      (forall q1 q2, In q1 ps -> In q2 ps ->
+         present (p_path q1) m <> None -> present (p_path q2) m <> None -> q1 = q2) ->
+      rep_value (FOneof r) (VMsg m)
+  | RV_array it l :
+      l <> [] -> item_ok it = true -> Forall (rep_value it) l -> rep_value (FArray it) (VList l)
+  | RV_map it es :
+      es <> [] -> item_ok it = true -> NoDup (map fst es) -> Forall (fun kv => rep_value it (snd kv)) es ->
+      Forall (fun kv => valid_utf8 (fst kv) = true) es ->
+      rep_value (FMap it) (VMap es)
+  | RV_any m :
+      (* a j5 Any: the type name is text, the payload is JSON text that the encoder can produce *)
+      valid_utf8 (sfield 1 m) = true ->
+      (forall n v, msg_get n m = Some v -> (n = 1 /\ exists s, v = VStr s) \/ (n = 2 /\ exists s, v = VBytes s) \/ (n = 3 /\ exists s, v = VBytes s)) ->
+      (forall s, msg_get 3 m = Some (VBytes s) -> compact_json s) ->
+      (exists t, any_text m = Ok t) ->
+      rep_value (FAny false) (VMsg m)
+  (* every populated leaf holds a representable value that Set keeps, no two members of one
+     proto oneof are populated, at most one member of an exposed oneof *)
+  with rep_props : list property -> msg -> Prop :=
+  | RP ps m :
+      props_ok ps ->
+      (forall l v, In l (leaves ps) -> present (p_path l) m = Some v ->
+         rep_value (p_ty l) v /\ kept (p_explicit l) v = true) ->
+      (forall l a n s v, In l (leaves ps) -> p_path l = a ++ [n] -> present (p_path l) m = Some v ->
+         In s (p_siblings l) -> msg_get s (hole a m) = None) ->
+      (forall p q1 q2, In p ps -> In q1 (exposed_members p) -> In q2 (exposed_members p) ->
+         present (p_path q1) m <> None -> present (p_path q2) m <> None -> q1 = q2) ->
+      rep_props ps m.
+
+  Inductive equiv_value : field_ty -> pval -> pval -> Prop :=
+  | EV_scalar k v v' : scalar_equiv k v v' -> equiv_value (FScalar k) v v'
+  | EV_enum r v : equiv_value (FEnum r) v v
+  | EV_object r ps a b :
+      lookup env r = Some (SObject ps) -> equiv_props ps a b -> equiv_value (FObject r) (VMsg a) (VMsg b)
+  | EV_oneof r ps a b :
+      lookup env r = Some (SOneof ps) -> equiv_props ps a b -> equiv_value (FOneof r) (VMsg a) (VMsg b)
+  | EV_array it l l' : Forall2 (equiv_value it) l l' -> equiv_value (FArray it) (VList l) (VList l')
+  | EV_map it es es' :
+      Forall2 (fun kv kv' => fst kv = fst kv' /\ equiv_value it (snd kv) (snd kv')) es es' ->
+      equiv_value (FMap it) (VMap es) (VMap es')
+  | EV_any m m' Jd :
+      (* same type name; the stored payload is [raw] of the JSON value the encoder embedded *)
+      sfield 1 m' = sfield 1 m -> wfb Jd = true -> any_text m = Ok (print Jd) ->
+      msg_get 3 m' = Some (VBytes (raw Jd)) ->
+      equiv_value (FAny false) (VMsg m) (VMsg m')
+  (* equal property by property: hence an empty flattened sub-message and an absent one agree *)
+  with equiv_props : list property -> msg -> msg -> Prop :=
+  | EP ps a b :
+      (forall l, In l (leaves ps) -> opt_rel (equiv_value (p_ty l)) (present (p_path l) a) (present (p_path l) b)) ->
+      equiv_props ps a b.
+
+  (* ---------------------------------------------------------------- one leaf is written *)
+  Lemma snoc_split {A} (a : list A) n c x rp : a ++ [n] = c ++ x :: rp ->
+    (rp = [] /\ c = a /\ x = n) \/ (exists rp', rp = rp' ++ [n] /\ a = c ++ x :: rp').
+  Proof.
+    revert c. induction a as [|z a IH]; intros c E.
+    - destruct c as [|c0 c]; cbn [app] in E.
+      + injection E as <- <-. left. repeat split; reflexivity.
+      + injection E as _ E. destruct c; discriminate.
+    - destruct c as [|c0 c]; cbn [app] in E.
+      + injection E as <- <-. right. exists a. split; reflexivity.
+      + injection E as <- E. destruct (IH c E) as [(-> & -> & ->)|(rp' & -> & ->)].
+        * left. repeat split; reflexivity.
+        * right. exists rp'. split; reflexivity.
+  Qed.
+
+  Definition setter_ok (S : list N) (n : N) (v' : pval) (h h' : msg) : Prop :=
+    msg_get n h' = Some v' /\
+    forall x, x <> n -> msg_get x h' = if existsb (N.eqb x) S then None else msg_get x h.
+
+  Lemma leaf_frame ps l a n k acc h' v' :
+    props_ok ps -> In l (leaves ps) -> p_path l = a ++ [n] ->
+    k n (hole a acc) = Ok h' -> setter_ok (p_siblings l) n v' (hole a acc) h' ->
+    exists acc', holder (p_path l) acc k = Ok acc' /\
+      present (p_path l) acc' = Some v' /\
+      forall l2, In l2 (leaves ps) -> l2 <> l ->
+        present (p_path l2) acc' = present (p_path l2) acc \/
+        (present (p_path l2) acc' = None /\ exists s, In s (p_siblings l) /\ p_path l2 = a ++ [s]).
+  Proof.
+    intros Hok Hl Hp Hk [U1 U2]. rewrite Hp.
+    destruct (holder_spec a n k acc h' Hk) as (acc' & Hh & Hhole & Hframe).
+    exists acc'. split; [exact Hh|]. split.
+    - rewrite present_last, Hhole. exact U1.
+    - intros l2 Hl2 Hne.
+      destruct (po_diverge ps Hok l l2 Hl Hl2 ltac:(congruence)) as (c & x & y & rp & rq & E1 & E2 & Hxy).
+      rewrite Hp in E1. destruct (snoc_split a n c x rp E1) as [(-> & -> & ->)|(rp' & -> & Ea)].
+      + (* same holder, another field *)
+        rewrite E2. rewrite !(present_app a (y :: rq)) by discriminate. rewrite Hhole.
+        destruct (existsb (N.eqb y) (p_siblings l)) eqn:Es.
+        * right. assert (Hy : msg_get y h' = None) by (rewrite U2 by congruence; rewrite Es; reflexivity).
+          apply existsb_exists in Es as (s & Hs & Hys). apply N.eqb_eq in Hys. subst s.
+          split; [destruct rq; cbn [present]; rewrite Hy; reflexivity|].
+          exists y. split; [exact Hs|].
+          destruct (po_siblings ps Hok l a n y Hl Hp Hs) as (_ & l3 & Hl3 & Hp3).
+          destruct rq as [|q0 rq]; [reflexivity|]. exfalso.
+          assert (Hd : l3 <> l2) by (intros ->; rewrite E2 in Hp3; apply app_inv_head in Hp3; discriminate).
+          destruct (po_diverge ps Hok l3 l2 Hl3 Hl2 Hd) as (c' & x' & y' & r1 & r2 & F1 & F2 & Hne').
+          rewrite Hp3 in F1. rewrite E2 in F2.
+          (* a ++ [y] and a ++ y :: q0 :: rq cannot diverge *)
+          clear - F1 F2 Hne'. revert c' F1 F2. induction a as [|z a IH]; intros c' F1 F2.
+          -- destruct c' as [|c0 c']; cbn [app] in *.
+             ++ injection F1 as -> _. injection F2 as -> _. congruence.
+             ++ injection F1 as _ F1. destruct c'; discriminate.
+          -- destruct c' as [|c0 c']; cbn [app] in *.
+             ++ injection F1 as -> _. injection F2 as -> _. congruence.
+             ++ injection F1 as _ F1. injection F2 as _ F2. eapply IH; eassumption.
+        * left. apply present_cons_congr. rewrite U2 by congruence. rewrite Es. reflexivity.
+      + left. rewrite E2. apply (Hframe c y x rp' rq Ea). congruence.
+  Qed.
+
+  (* ---------------------------------------------------------------- the invariant of a member loop *)
+  Definition Inv (L : list property) (m : msg) (D : list property) (acc : msg) : Prop :=
+    (forall l, In l D -> In l L ->
+       opt_rel (equiv_value (p_ty l)) (present (p_path l) m) (present (p_path l) acc)) /\
+    (forall l, In l L -> ~ In l D -> present (p_path l) acc = None).
+
+  Lemma inv_step ps m D acc acc' l a n v v' :
+    props_ok ps -> rep_props ps m -> Inv (leaves ps) m D acc ->
+    In l (leaves ps) -> ~ In l D -> p_path l = a ++ [n] ->
+    present (p_path l) m = Some v -> equiv_value (p_ty l) v v' ->
+    present (p_path l) acc' = Some v' ->
+    (forall l2, In l2 (leaves ps) -> l2 <> l ->
+        present (p_path l2) acc' = present (p_path l2) acc \/
+        (present (p_path l2) acc' = None /\ exists s, In s (p_siblings l) /\ p_path l2 = a ++ [s])) ->
+    Inv (leaves ps) m (l :: D) acc'.
+  Proof.
+    intros Hok Hrep [I1 I2] Hl HnD Hp Hm Heq Hset Hframe.
+    inversion Hrep as [? ? _ _ Hexcl _]; subst.
+    split.
+    - intros l' [<-|Hin] HL.
+      + rewrite Hm, Hset. constructor. exact Heq.
+      + assert (Hne : l' <> l) by (intros ->; contradiction).
+        destruct (Hframe l' HL Hne) as [->|(Hnone & s & Hs & Hp')].
+        * apply I1; assumption.
+        * rewrite Hnone. rewrite Hp', present_last. rewrite (Hexcl l a n s v Hl Hp Hm Hs). constructor.
+    - intros l' HL HnD'.
+      assert (Hne : l' <> l) by (intros ->; apply HnD'; left; reflexivity).
+      assert (HnD2 : ~ In l' D) by (intros H; apply HnD'; right; exact H).
+      destruct (Hframe l' HL Hne) as [->|(Hnone & _)]; [apply I2; assumption|exact Hnone].
+  Qed.
+
+  (* ---------------------------------------------------------------- one step of each decoder function *)
+  Notation dec_scalar := dsc.
+  Notation dec_value := (dec_value dsc raw mapchk env).
+  Notation dec_member := (dec_member dsc raw mapchk env).
+  Notation dec_members := (dec_members dsc raw mapchk env).
+  Notation dec_oneof := (dec_oneof dsc raw mapchk env).
+  Notation dec_items := (dec_items dsc raw mapchk env).
+  Notation dec_entries := (dec_entries dsc raw mapchk env).
+
+  Lemma dec_member_S f d p j m seen :
+    dec_member (S f) d p j m seen =
+      if max_nesting <? d + 1 then Err "exceeded max depth" else
+      match j with
+      | JNull => Ok (m, seen)
+      | _ => if mem_b (p_json p) seen then Err "field is already set"
+             else if oneof_conflict (p_path p) (p_siblings p) m then Err "conflicts with another member of the oneof"
+             else obind (dec_value f (d + 1) p j m) (fun m' => Ok (m', p_json p :: seen))
+      end.
+  Proof. reflexivity. Qed.
+
+  Lemma dec_members_S f d props ms m seen :
+    dec_members (S f) d props ms m seen =
+      match ms with
+      | [] => Ok m
+      | (k, v) :: r =>
+          match find_prop props k with
+          | None => Err "no such field"
+          | Some p => obind (dec_member f d p v m seen) (fun ms' => dec_members f d props r (fst ms') (snd ms'))
+          end
+      end.
+  Proof. reflexivity. Qed.
+
+  Lemma dec_oneof_S f d props ms m seen found constrain :
+    dec_oneof (S f) d props ms m seen found constrain =
+      match ms with
+      | [] => oneof_post props m found constrain
+      | (k, v) :: r =>
+          if bytes_eqb k txt_type then
+            match v with
+            | JStr s => dec_oneof f d props r m seen found (Some s)
+            | _ => Err "unexpected token, expected string"
+            end
+          else
+            match find_prop props k with
+            | None => Err "no such key"
+            | Some p => obind (dec_member f d p v m seen) (fun ms' =>
+                          dec_oneof f d props r (fst ms') (snd ms') (found ++ [k]) constrain)
+            end
+      end.
+  Proof. reflexivity. Qed.
+
+  Lemma dec_value_S f d p j m :
+    dec_value (S f) d p j m =
+      match p_ty p with
+      | FScalar k =>
+          if is_container j then Err "unexpected token, expected scalar"
+          else obind (dec_scalar k j) (fun v =>
+                 holder (p_path p) m (fun n h =>
+                   Ok (match v with
+                       | None => msg_del n h
+                       | Some x => msg_set (p_explicit p) (p_siblings p) n x h
+                       end)))
+      | FEnum r =>
+          match j with
+          | JStr s =>
+              match lookup env r with
+              | Some (SEnum prefix opts) =>
+                  match option_by_name prefix opts s with
+                  | Some z => holder (p_path p) m (fun n h => Ok (msg_set (p_explicit p) (p_siblings p) n (VEnum z) h))
+                  | None => Err "enum value not found"
+                  end
+              | _ => Err "schema"
+              end
+          | _ => Err "unexpected token, expected string"
+          end
+      | FObject r =>
+          match j, lookup env r with
+          | JObj ms, Some (SObject props) =>
+              holder (p_path p) m (fun n h =>
+                let '(sub, h1) := msg_mutable (p_siblings p) n h in
+                obind (dec_members f d props ms sub []) (fun sub' => Ok (msg_put n (VMsg sub') h1)))
+          | JObj _, _ => Err "schema"
+          | _, _ => Err "unexpected token, expected {"
+          end
+      | FOneof r =>
+          match j, lookup env r with
+          | JObj ms, Some (SOneof props) =>
+              match p_path p with
+              | [] => dec_oneof f d props ms m [] [] None
+              | path =>
+                  holder path m (fun n h =>
+                    let '(sub, h1) := msg_mutable (p_siblings p) n h in
+                    obind (dec_oneof f d props ms sub [] [] None) (fun sub' => Ok (msg_put n (VMsg sub') h1)))
+              end
+          | JObj _, _ => Err "schema"
+          | _, _ => Err "unexpected token, expected {"
+          end
+      | FArray it =>
+          match j with
+          | JArr js =>
+              holder (p_path p) m (fun n h =>
+                let existing := match msg_get n h with Some (VList l) => l | _ => [] end in
+                obind (dec_items f d it js existing) (fun l => Ok (msg_set true (p_siblings p) n (VList l) h)))
+          | _ => Err "unexpected token, expected ["
+          end
+      | FMap it =>
+          match j with
+          | JObj ms =>
+              holder (p_path p) m (fun n h =>
+                let existing := match msg_get n h with Some (VMap l) => l | _ => [] end in
+                obind (dec_entries f d it ms existing []) (fun l => Ok (msg_set true (p_siblings p) n (VMap l) h)))
+          | _ => Err "unexpected token, expected {"
+          end
+      | FAny pb =>
+          match j with
+          | JObj ms =>
+              holder (p_path p) m (fun n h =>
+                let '(sub, h1) := msg_mutable (p_siblings p) n h in
+                obind (any_members ms None None) (fun vt =>
+                  match snd vt, fst vt with
+                  | None, _ => Err "no type found in Any"
+                  | _, None => Err "no value found in Any"
+                  | Some tn, Some v =>
+                      if pb then Err "proto is required for PB Any"
+                      else Ok (msg_put n (VMsg (msg_set false [] 3 (VBytes (raw v)) (msg_set false [] 1 (VStr tn) sub))) h1)
+                  end))
+          | _ => Err "unexpected token, expected {"
+          end
+      end.
+  Proof. reflexivity. Qed.
+
+  (* a setter that stores a kept value *)
+  Lemma setter_set e S n v h : kept e v = true -> setter_ok S n v h (msg_set e S n v h).
+  Proof.
+    intros H. split; [apply msg_get_set_same; exact H|]. intros x Hx. apply msg_get_set_other; assumption.
+  Qed.
+
+  (* ... and the message-typed one on a field that is not populated yet *)
+  Lemma setter_fresh_msg S n b h : msg_get n h = None ->
+    msg_mutable S n h = ([], msg_put n (VMsg []) (msg_clear_all S h)) /\
+    setter_ok S n (VMsg b) h (msg_put n (VMsg b) (msg_put n (VMsg []) (msg_clear_all S h))).
+  Proof.
+    intros H. split; [unfold msg_mutable; rewrite H; reflexivity|]. split.
+    - apply msg_get_put_same.
+    - intros x Hx. rewrite !msg_get_put_other by exact Hx. apply msg_get_clear_all.
+  Qed.
+
+  (* ---------------------------------------------------------------- measures *)
+  Definition lsize (ms : list (bytes * jvalue)) : nat := fold_right (fun kv a => (jsize (snd kv) + a)%nat) O ms.
+  Definition asize (js : list jvalue) : nat := fold_right (fun x a => (jsize x + a)%nat) O js.
+  Lemma jsize_obj ms : jsize (JObj ms) = S (lsize ms). Proof. reflexivity. Qed.
+  Lemma jsize_arr js : jsize (JArr js) = S (asize js). Proof. reflexivity. Qed.
+  Lemma jsize_pos j : (1 <= jsize j)%nat. Proof. destruct j; cbn [jsize]; lia. Qed.
+
+  (* how many property levels a value opens (the decoder counts them against maxNestingDepth) *)
+  Fixpoint jnest (j : jvalue) : nat :=
+    match j with
+    | JObj ms => S (fold_right (fun kv a => Nat.max (jnest (snd kv)) a) O ms)
+    | JArr js => fold_right (fun x a => Nat.max (jnest x) a) O js
+    | _ => O
+    end.
+  Definition lnest (ms : list (bytes * jvalue)) : nat := fold_right (fun kv a => Nat.max (jnest (snd kv)) a) O ms.
+  Definition anest (js : list jvalue) : nat := fold_right (fun x a => Nat.max (jnest x) a) O js.
+  Lemma jnest_obj ms : jnest (JObj ms) = S (lnest ms). Proof. reflexivity. Qed.
+  Lemma jnest_arr js : jnest (JArr js) = anest js. Proof. reflexivity. Qed.
+
+  Definition depth_ok (d : N) (k : nat) : Prop := d + N.of_nat k <= max_nesting.
+
+  (* ---------------------------------------------------------------- what reading a printed value achieves *)
+  Definition ObjDec (ps : list property) (m : msg) (ms : list (bytes * jvalue)) : Prop :=
+    forall F d, (3 * lsize ms + 3 <= F)%nat -> depth_ok d (S (lnest ms)) ->
+    exists b, dec_members F d ps ms [] [] = Ok b /\ equiv_props ps m b.
+
+  Definition OneofDec (ps : list property) (m : msg) (ms : list (bytes * jvalue)) : Prop :=
+    forall F d ps0 acc D, (3 * lsize ms + 3 <= F)%nat -> depth_ok d (S (lnest ms)) ->
+      props_ok ps0 -> rep_props ps0 m -> (forall q, In q ps -> In q (leaves ps0)) ->
+      Inv (leaves ps0) m D acc -> (forall q, In q ps -> ~ In q D) ->
+      exists acc', dec_oneof F d ps ms acc [] [] None = Ok acc' /\ Inv (leaves ps0) m (ps ++ D) acc'.
+
+  Definition dec_ok_value (t : field_ty) (v : pval) (J : jvalue) : Prop :=
+    match t with
+    | FScalar k =>
+        is_container J = false /\
+        exists v', dec_scalar k J = Ok (Some v') /\ scalar_equiv k v v' /\ (forall e, kept e v = true -> kept e v' = true)
+    | FEnum r =>
+        exists pre opts s n, lookup env r = Some (SEnum pre opts) /\ J = JStr s /\
+                             option_by_name pre opts s = Some n /\ v = VEnum n
+    | FObject r =>
+        exists ps ms m, lookup env r = Some (SObject ps) /\ J = JObj ms /\ v = VMsg m /\ ObjDec ps m ms
+    | FOneof r =>
+        exists ps ms m, lookup env r = Some (SOneof ps) /\ J = JObj ms /\ v = VMsg m /\ OneofDec ps m ms
+    | FArray it =>
+        exists js l, J = JArr js /\ v = VList l /\
+          forall F d, (3 * asize js + 3 <= F)%nat -> depth_ok d (anest js) ->
+          exists l', dec_items F d it js [] = Ok l' /\ Forall2 (equiv_value it) l l' /\ l' <> []
+    | FMap it =>
+        exists ms es, J = JObj ms /\ v = VMap es /\
+          forall F d, (3 * lsize ms + 3 <= F)%nat -> depth_ok d (lnest ms) ->
+          exists es', dec_entries F d it ms [] [] = Ok es' /\
+                      Forall2 (fun kv kv' => fst kv = fst kv' /\ equiv_value it (snd kv) (snd kv')) es es' /\ es' <> []
+    | FAny pb =>
+        pb = false /\
+        exists ms m tn Jv, J = JObj ms /\ v = VMsg m /\ any_members ms None None = Ok (Some Jv, Some tn) /\
+                           tn = sfield 1 m /\ any_text m = Ok (print Jv)
+    end.
+
+  (* ---------------------------------------------------------------- a leaf property reads its printed value *)
+  Lemma kept_list l : l <> [] -> kept true (VList l) = true.
+  Proof. destruct l; [congruence|reflexivity]. Qed.
+  Lemma kept_map l : l <> [] -> kept true (VMap l) = true.
+  Proof. destruct l; [congruence|reflexivity]. Qed.
+
+  Lemma find_prop_nodup ps p : NoDup (map p_json ps) -> In p ps -> find_prop ps (p_json p) = Some p.
+  Proof.
+    induction ps as [|q r IH]; intros Hnd Hin; [contradiction|]. cbn [map] in Hnd. inversion Hnd as [|? ? Hni Hnd']; subst.
+    cbn [find_prop]. destruct Hin as [->|Hin].
+    - assert (E : bytes_eqb (p_json p) (p_json p) = true).
+      { clear. induction (p_json p) as [|c s IHs]; [reflexivity|]. cbn [bytes_eqb]. rewrite N.eqb_refl, IHs. reflexivity. }
+      rewrite E. reflexivity.
+    - destruct (bytes_eqb (p_json q) (p_json p)) eqn:E.
+      + exfalso. apply Hni.
+        assert (Heq : p_json q = p_json p).
+        { clear - E. revert E. generalize (p_json p). induction (p_json q) as [|c s IHs]; intros [|c' s'] E; try discriminate; [reflexivity|].
+          cbn [bytes_eqb] in E. apply andb_true_iff in E as [E1 E2]. apply N.eqb_eq in E1. subst. f_equal. apply IHs. exact E2. }
+        rewrite Heq. apply in_map. exact Hin.
+      + apply IH; assumption.
+  Qed.
+
+  Lemma field_ty_eq_dec : forall a b : field_ty, {a = b} + {a <> b}.
+  Proof.
+    decide equality; try apply Bool.bool_dec; try (apply list_eq_dec; apply N.eq_dec).
+    decide equality.
+  Defined.
+
+  Lemma property_eq_dec : forall p q : property, {p = q} + {p <> q}.
+  Proof.
+    decide equality; try apply Bool.bool_dec; try (apply list_eq_dec; apply N.eq_dec); apply field_ty_eq_dec.
+  Defined.
+
+  Lemma inv_none L m D acc l : Inv L m D acc -> In l L -> present (p_path l) m = None -> present (p_path l) acc = None.
+  Proof.
+    intros [I1 I2] HL Hm. destruct (in_dec property_eq_dec l D) as [Hin|Hn].
+    - specialize (I1 l Hin HL). rewrite Hm in I1. inversion I1. reflexivity.
+    - apply I2; assumption.
+  Qed.
+
+  Lemma print_nonempty j : wfb j = true -> print j <> [].
+  Proof. intros H. destruct (print_head j H) as (c & t & -> & _). discriminate. Qed.
+
+  (* the value member of a well-formed Any object is well-formed *)
+  Lemma any_members_wf ms : forallb (fun kv => valid_utf8 (fst kv) && wfb (snd kv)) ms = true ->
+    forall val ty Jv tyo, match val with Some j => wfb j = true | None => True end ->
+    any_members ms val ty = Ok (Some Jv, tyo) -> wfb Jv = true.
+  Proof.
+    induction ms as [|[k v] r IH]; intros Hwf val ty Jv tyo Hval H; cbn [any_members] in H.
+    - injection H as -> _. exact Hval.
+    - cbn [forallb fst snd] in Hwf. apply andb_true_iff in Hwf as [Hkv Hr]. apply andb_true_iff in Hkv as [_ Hv].
+      destruct (bytes_eqb k txt_type).
+      + destruct v; try discriminate. eapply IH; eassumption.
+      + destruct val; [discriminate|]. eapply (IH Hr (Some v)); [exact Hv|exact H].
+  Qed.
+
+  Lemma any_result_equiv mv tn Jv : wfb Jv = true -> tn = sfield 1 mv -> any_text mv = Ok (print Jv) ->
+    equiv_value (FAny false) (VMsg mv)
+      (VMsg (msg_set false [] 3 (VBytes (raw Jv)) (msg_set false [] 1 (VStr tn) []))).
+  Proof.
+    intros Hwf Htn Htxt. pose proof (Hraw_ne Jv Hwf) as Hpn.
+    assert (Hk3 : kept false (VBytes (raw Jv)) = true) by (cbn; destruct (raw Jv); [congruence|reflexivity]).
+    apply EV_any with (Jd := Jv); [|exact Hwf|exact Htxt|apply msg_get_set_same; exact Hk3].
+    unfold sfield at 1. rewrite msg_get_set_other by (exact Hk3 || lia). cbn [existsb].
+    destruct tn as [|c r] eqn:Et.
+    - cbn. rewrite <- Htn. reflexivity.
+    - rewrite msg_get_set_same by reflexivity. rewrite <- Htn. reflexivity.
+  Qed.
+
+  Hypothesis Hflat : oneofs_flat env.
+  (* members of a oneof schema have distinct JSON names, none of them "!type" *)
+  Definition oneof_names_ok : Prop :=
+    forall name ps, lookup env name = Some (SOneof ps) ->
+      NoDup (map p_json ps) /\ forall q, In q ps -> p_json q <> txt_type.
+  Hypothesis Hnames : oneof_names_ok.
+
+  Lemma leaves_flat ps : Forall (fun p => p_path p <> []) ps -> leaves ps = ps.
+  Proof.
+    induction 1 as [|p r Hp Hr IH]; [reflexivity|]. unfold leaves in *. cbn [flat_map]. rewrite IH.
+    unfold prop_leaves. destruct (p_path p); [congruence|reflexivity].
+  Qed.
+
+  Lemma inv_nil L m : Inv L m [] [].
+  Proof. split; [intros l []|]. intros l _ _. apply present_nil_msg. Qed.
+
+  (* one member whose property is a leaf: the printed value is read and stored *)
+  Lemma leaf_read ps0 m D acc l v J F d seen :
+    props_ok ps0 -> rep_props ps0 m -> Inv (leaves ps0) m D acc ->
+    In l (leaves ps0) -> ~ In l D -> present (p_path l) m = Some v ->
+    dec_ok_value (p_ty l) v J -> J <> JNull -> wfb J = true ->
+    (3 * jsize J + 2 <= F)%nat -> depth_ok d (S (jnest J)) -> mem_b (p_json l) seen = false ->
+    exists acc', dec_member F d l J acc seen = Ok (acc', p_json l :: seen) /\ Inv (leaves ps0) m (l :: D) acc'.
+  Proof.
+    intros Hok Hrep HInv Hl HnD Hm Hdec HJ Hwf HF Hd Hseen.
+    inversion Hrep as [? ? _ Hvals Hexcl _]; subst.
+    destruct (Hvals l v Hl Hm) as [Hrv Hkept].
+    pose proof (app_removelast_last 0 (po_paths ps0 Hok l Hl)) as Hsn.
+    set (a := removelast (p_path l)) in *. set (n := last (p_path l) 0) in *.
+    assert (Hfresh : msg_get n (hole a acc) = None).
+    { rewrite <- present_last, <- Hsn. destruct HInv as [_ I2]. apply I2; assumption. }
+    destruct F as [|F]; [lia|]. rewrite dec_member_S.
+    assert (Hd1 : (max_nesting <? d + 1) = false) by (unfold depth_ok in Hd; lia). rewrite Hd1.
+    assert (Hconf : oneof_conflict (p_path l) (p_siblings l) acc = false).
+    { rewrite Hsn. apply oneof_conflict_clear. intros s Hs.
+      destruct (po_siblings ps0 Hok l a n s Hl Hsn Hs) as (_ & l2 & Hl2 & Hp2).
+      rewrite <- present_last, <- Hp2. apply (inv_none _ _ _ _ _ HInv Hl2).
+      rewrite Hp2, present_last. apply (Hexcl l a n s v Hl Hsn Hm Hs). }
+    assert (Hgoal : exists acc' v', dec_value F (d + 1) l J acc = Ok acc' /\ equiv_value (p_ty l) v v' /\
+              present (p_path l) acc' = Some v' /\
+              (forall l2, In l2 (leaves ps0) -> l2 <> l ->
+                 present (p_path l2) acc' = present (p_path l2) acc \/
+                 (present (p_path l2) acc' = None /\ exists s, In s (p_siblings l) /\ p_path l2 = a ++ [s]))).
+    { destruct F as [|F]; [pose proof (jsize_pos J); lia|]. rewrite dec_value_S.
+      destruct (p_ty l) as [k|r|r|r|it|it|pb] eqn:Et; cbn [dec_ok_value] in Hdec.
+      - (* scalar *)
+        destruct Hdec as (Hnc & v' & Hds & Heq & Hk). rewrite Hnc, Hds. cbn [obind].
+        destruct (leaf_frame ps0 l a n (fun n0 h => Ok (msg_set (p_explicit l) (p_siblings l) n0 v' h)) acc _ v'
+                    Hok Hl Hsn eq_refl (setter_set _ _ _ _ _ (Hk _ Hkept)))
+          as (acc' & Hh & Hp & Hfr).
+        exists acc', v'. split; [exact Hh|]. split; [constructor; exact Heq|]. split; assumption.
+      - (* enum *)
+        destruct Hdec as (pre & opts & s & z & Hlk & -> & Hbn & ->). rewrite Hlk, Hbn.
+        destruct (leaf_frame ps0 l a n (fun n0 h => Ok (msg_set (p_explicit l) (p_siblings l) n0 (VEnum z) h)) acc _ (VEnum z)
+                    Hok Hl Hsn eq_refl (setter_set _ _ _ _ _ Hkept))
+          as (acc' & Hh & Hp & Hfr).
+        exists acc', (VEnum z). split; [exact Hh|]. split; [constructor|]. split; assumption.
+      - (* object *)
+        destruct Hdec as (ps & ms & mv & Hlk & -> & -> & Hobj). rewrite Hlk.
+        destruct (Hobj F (d + 1)) as (b & Hb & Heq).
+        { rewrite jsize_obj in HF. lia. } { unfold depth_ok in *. rewrite jnest_obj in Hd. lia. }
+        destruct (setter_fresh_msg (p_siblings l) n b (hole a acc) Hfresh) as [Hmut Hset].
+        assert (Hk : (fun n0 h => let '(sub, h1) := msg_mutable (p_siblings l) n0 h in
+                       obind (dec_members F (d + 1) ps ms sub []) (fun sub' => Ok (msg_put n0 (VMsg sub') h1)))
+                     n (hole a acc) = Ok (msg_put n (VMsg b) (msg_put n (VMsg []) (msg_clear_all (p_siblings l) (hole a acc)))))
+          by (cbv beta; rewrite Hmut, Hb; reflexivity).
+        destruct (leaf_frame ps0 l a n _ acc _ (VMsg b) Hok Hl Hsn Hk Hset) as (acc' & Hh & Hp & Hfr).
+        exists acc', (VMsg b). split; [exact Hh|]. split; [econstructor; eassumption|]. split; assumption.
+      - (* oneof wrapper held by a field *)
+        destruct Hdec as (ps & ms & mv & Hlk & -> & -> & Hone). rewrite Hlk.
+        inversion Hrv as [| | |? ? ? Hlk' Hrp Hamo| | |]; subst. rewrite Hlk in Hlk'. injection Hlk' as <-.
+        inversion Hrp as [? ? Hokps _ _ _]; subst.
+        pose proof (leaves_flat ps (Hflat _ _ Hlk)) as Hlv.
+        destruct (Hone F (d + 1) ps [] []) as (b & Hb & HinvB).
+        { rewrite jsize_obj in HF. lia. } { unfold depth_ok in *. rewrite jnest_obj in Hd. lia. }
+        { exact Hokps. } { exact Hrp. } { rewrite Hlv. auto. } { apply inv_nil. } { intros q _ []. }
+        assert (Heq : equiv_props ps mv b).
+        { constructor. intros q Hq. destruct HinvB as [I1 _]. apply I1; [|exact Hq].
+          rewrite Hlv in Hq. apply in_or_app. left. exact Hq. }
+        destruct (setter_fresh_msg (p_siblings l) n b (hole a acc) Hfresh) as [Hmut Hset].
+        assert (Hk : (fun n0 h => let '(sub, h1) := msg_mutable (p_siblings l) n0 h in
+                       obind (dec_oneof F (d + 1) ps ms sub [] [] None) (fun sub' => Ok (msg_put n0 (VMsg sub') h1)))
+                     n (hole a acc) = Ok (msg_put n (VMsg b) (msg_put n (VMsg []) (msg_clear_all (p_siblings l) (hole a acc)))))
+          by (cbv beta; rewrite Hmut, Hb; reflexivity).
+        destruct (leaf_frame ps0 l a n _ acc _ (VMsg b) Hok Hl Hsn Hk Hset) as (acc' & Hh & Hp & Hfr).
+        exists acc', (VMsg b). split; [|split; [econstructor; eassumption|split; assumption]].
+        pose proof (po_paths ps0 Hok l Hl) as Hne.
+        destruct (p_path l) as [|p0 pr]; [congruence|]. exact Hh.
+      - (* array *)
+        destruct Hdec as (js & lv & -> & -> & Harr).
+        destruct (Harr F (d + 1)) as (l' & Hl' & Hf2 & Hne).
+        { rewrite jsize_arr in HF. lia. } { unfold depth_ok in *. rewrite jnest_arr in Hd. lia. }
+        assert (Hk : (fun n0 h => let existing := match msg_get n0 h with Some (VList l0) => l0 | _ => [] end in
+                       obind (dec_items F (d + 1) it js existing) (fun l0 => Ok (msg_set true (p_siblings l) n0 (VList l0) h)))
+                     n (hole a acc) = Ok (msg_set true (p_siblings l) n (VList l') (hole a acc)))
+          by (cbv beta zeta; rewrite Hfresh, Hl'; reflexivity).
+        destruct (leaf_frame ps0 l a n _ acc _ (VList l') Hok Hl Hsn Hk (setter_set _ _ _ _ _ (kept_list _ Hne)))
+          as (acc' & Hh & Hp & Hfr).
+        exists acc', (VList l'). split; [exact Hh|]. split; [constructor; exact Hf2|]. split; assumption.
+      - (* map *)
+        destruct Hdec as (ms & es & -> & -> & Hmap).
+        destruct (Hmap F (d + 1)) as (es' & Hes' & Hf2 & Hne).
+        { rewrite jsize_obj in HF. lia. } { unfold depth_ok in *. rewrite jnest_obj in Hd. lia. }
+        assert (Hk : (fun n0 h => let existing := match msg_get n0 h with Some (VMap l0) => l0 | _ => [] end in
+                       obind (dec_entries F (d + 1) it ms existing []) (fun l0 => Ok (msg_set true (p_siblings l) n0 (VMap l0) h)))
+                     n (hole a acc) = Ok (msg_set true (p_siblings l) n (VMap es') (hole a acc)))
+          by (cbv beta zeta; rewrite Hfresh, Hes'; reflexivity).
+        destruct (leaf_frame ps0 l a n _ acc _ (VMap es') Hok Hl Hsn Hk (setter_set _ _ _ _ _ (kept_map _ Hne)))
+          as (acc' & Hh & Hp & Hfr).
+        exists acc', (VMap es'). split; [exact Hh|]. split; [constructor; exact Hf2|]. split; assumption.
+      - (* any *)
+        destruct Hdec as (-> & ms & mv & tn & Jv & -> & -> & Ham & Htn & Htxt).
+        set (sub' := msg_set false [] 3 (VBytes (raw Jv)) (msg_set false [] 1 (VStr tn) [])).
+        destruct (setter_fresh_msg (p_siblings l) n sub' (hole a acc) Hfresh) as [Hmut Hset].
+        assert (Hk : (fun n0 h => let '(sub, h1) := msg_mutable (p_siblings l) n0 h in
+                       obind (any_members ms None None) (fun vt =>
+                         match snd vt, fst vt with
+                         | None, _ => Err "no type found in Any"
+                         | _, None => Err "no value found in Any"
+                         | Some tn0, Some v0 =>
+                             if false then Err "proto is required for PB Any"
+                             else Ok (msg_put n0 (VMsg (msg_set false [] 3 (VBytes (raw v0)) (msg_set false [] 1 (VStr tn0) sub))) h1)
+                         end))
+                     n (hole a acc) = Ok (msg_put n (VMsg sub') (msg_put n (VMsg []) (msg_clear_all (p_siblings l) (hole a acc)))))
+          by (cbv beta; rewrite Hmut, Ham; reflexivity).
+        destruct (leaf_frame ps0 l a n _ acc _ (VMsg sub') Hok Hl Hsn Hk Hset) as (acc' & Hh & Hp & Hfr).
+        exists acc', (VMsg sub'). split; [exact Hh|]. split; [|split; assumption].
+        apply any_result_equiv; try assumption.
+        cbn [wfb] in Hwf. apply (any_members_wf ms Hwf None None Jv (Some tn) I Ham). }
+    destruct Hgoal as (acc' & v' & Hdv & Heq & Hp & Hfr).
+    rewrite Hseen, Hconf, Hdv. cbn [obind]. exists acc'. split; [destruct J; try reflexivity; congruence|].
+    eapply inv_step; eassumption.
+  Qed.
+
+  Lemma inv_extend L m D1 D2 acc :
+    Inv L m D1 acc -> (forall l, In l D1 -> In l D2) ->
+    (forall l, In l D2 -> In l L -> In l D1 \/ present (p_path l) m = None) ->
+    Inv L m D2 acc.
+  Proof.
+    intros HI Hsub Hnew. pose proof HI as [I1 I2]. split.
+    - intros l H2 HL. destruct (Hnew l H2 HL) as [H1|Hn]; [apply I1; assumption|].
+      rewrite Hn, (inv_none _ _ _ _ _ HI HL Hn). constructor.
+    - intros l HL Hn. apply I2; [exact HL|]. intros H1. apply Hn, Hsub, H1.
+  Qed.
+
+  Lemma bytes_eqb_refl s : bytes_eqb s s = true.
+  Proof. induction s as [|c r IH]; [reflexivity|]. cbn [bytes_eqb]. rewrite N.eqb_refl, IH. reflexivity. Qed.
+
+  Lemma bytes_eqb_eq a b : bytes_eqb a b = true -> a = b.
+  Proof.
+    revert b. induction a as [|c r IH]; intros [|c' r'] H; try discriminate; [reflexivity|].
+    cbn [bytes_eqb] in H. apply andb_true_iff in H as [H1 H2]. apply N.eqb_eq in H1. subst. f_equal. apply IH. exact H2.
+  Qed.
+
+  Lemma bytes_eqb_neq a b : a <> b -> bytes_eqb a b = false.
+  Proof. intros H. destruct (bytes_eqb a b) eqn:E; [|reflexivity]. exfalso. apply H, bytes_eqb_eq, E. Qed.
+
+  (* ---------------------------------------------------------------- oneofs *)
+  (* {} : nothing is set *)
+  Lemma oneof_dec_empty r ps m : lookup env r = Some (SOneof ps) ->
+    (forall q, In q ps -> present (p_path q) m = None) -> OneofDec ps m [].
+  Proof.
+    intros Hlk Hnone F d ps0 acc D HF Hd Hok Hrep Hsub HInv HnD.
+    destruct F as [|F]; [lia|]. rewrite dec_oneof_S. cbn [oneof_post]. exists acc. split; [reflexivity|].
+    apply (inv_extend _ _ D); [exact HInv|intros l H; apply in_or_app; right; exact H|].
+    intros l H2 HL. apply in_app_or in H2 as [Hq|HD]; [right; apply Hnone; exact Hq|left; exact HD].
+  Qed.
+
+  (* {"!type": name, name: value} *)
+  Lemma oneof_dec_one r ps m q v J : lookup env r = Some (SOneof ps) ->
+    In q ps -> present (p_path q) m = Some v ->
+    (forall q', In q' ps -> q' <> q -> present (p_path q') m = None) ->
+    dec_ok_value (p_ty q) v J -> J <> JNull -> wfb J = true ->
+    OneofDec ps m [(txt_type, JStr (p_json q)); (p_json q, J)].
+  Proof.
+    intros Hlk Hq Hv Hoth Hdec HJ Hwf F d ps0 acc D HF Hd Hok Hrep Hsub HInv HnD.
+    destruct (Hnames _ _ Hlk) as [Hnd Hnt].
+    cbn [lsize fold_right snd jsize] in HF. cbn [lnest fold_right snd jnest] in Hd.
+    destruct F as [|F]; [lia|]. rewrite dec_oneof_S. rewrite bytes_eqb_refl.
+    destruct F as [|F]; [lia|]. rewrite dec_oneof_S.
+    rewrite (bytes_eqb_neq _ _ (Hnt q Hq)). rewrite (find_prop_nodup ps q Hnd Hq).
+    destruct (leaf_read ps0 m D acc q v J F d [] Hok Hrep HInv (Hsub q Hq) (HnD q Hq) Hv Hdec HJ Hwf)
+      as (acc' & Hdm & HInv'); [lia| |reflexivity|].
+    { unfold depth_ok in *. lia. }
+    rewrite Hdm. cbn [obind fst snd app].
+    destruct F as [|F]; [pose proof (jsize_pos J); lia|]. rewrite dec_oneof_S. cbn [oneof_post]. rewrite bytes_eqb_refl.
+    exists acc'. split; [reflexivity|].
+    apply (inv_extend _ _ (q :: D)); [exact HInv'| |].
+    - intros l [<-|HD]; apply in_or_app; [left; exact Hq|right; exact HD].
+    - intros l H2 HL. apply in_app_or in H2 as [Hl|HD]; [|left; right; exact HD].
+      destruct (property_eq_dec l q) as [->|Hne]; [left; left; reflexivity|right; apply Hoth; assumption].
+  Qed.
+
+  (* ---------------------------------------------------------------- arrays and maps *)
+  Lemma dec_items_S f d it js acc :
+    dec_items (S f) d it js acc =
+      match js with
+      | [] => Ok acc
+      | j :: r =>
+          match it with
+          | FScalar k =>
+              if is_container j then Err "unexpected token, expected scalar"
+              else obind (dec_scalar k j) (fun v =>
+                     match v with
+                     | None => Err "cannot append nil value"
+                     | Some x => dec_items f d it r (acc ++ [x])
+                     end)
+          | FEnum ref =>
+              match j, lookup env ref with
+              | JStr s, Some (SEnum prefix opts) =>
+                  match option_by_name prefix opts s with
+                  | Some z => dec_items f d it r (acc ++ [VEnum z])
+                  | None => Err "enum value not found"
+                  end
+              | JStr _, _ => Err "schema"
+              | _, _ => Err "cannot set enum value"
+              end
+          | FObject ref =>
+              match j, lookup env ref with
+              | JObj ms, Some (SObject props) =>
+                  obind (dec_members f d props ms [] []) (fun sub => dec_items f d it r (acc ++ [VMsg sub]))
+              | JObj _, _ => Err "schema"
+              | _, _ => Err "unexpected token, expected {"
+              end
+          | FOneof ref =>
+              match j, lookup env ref with
+              | JObj ms, Some (SOneof props) =>
+                  obind (dec_oneof f d props ms [] [] [] None) (fun sub => dec_items f d it r (acc ++ [VMsg sub]))
+              | JObj _, _ => Err "schema"
+              | _, _ => Err "unexpected token, expected {"
+              end
+          | _ => Err "unknown array schema type"
+          end
+      end.
+  Proof. reflexivity. Qed.
+
+  Lemma dec_entries_S f d it ms acc seen :
+    dec_entries (S f) d it ms acc seen =
+      match ms with
+      | [] => Ok acc
+      | (key, j) :: r =>
+          match it with
+          | FScalar k =>
+              if mem_b key seen then Err "key already exists in map"
+              else if mapchk && (match map_get key acc with Some _ => true | None => false end) then Err "key already exists in map"
+              else if is_container j then Err "unexpected token, expected scalar"
+              else obind (dec_scalar k j) (fun v =>
+                     match v with
+                     | None => Err "cannot set nil value"
+                     | Some x => dec_entries f d it r (map_set key x acc) (key :: seen)
+                     end)
+          | FEnum ref =>
+              if mem_b key seen then Err "key already exists in map"
+              else if mapchk && (match map_get key acc with Some _ => true | None => false end) then Err "key already exists in map" else
+              match j, lookup env ref with
+              | JStr s, Some (SEnum prefix opts) =>
+                  match option_by_name prefix opts s with
+                  | Some z => dec_entries f d it r (map_set key (VEnum z) acc) (key :: seen)
+                  | None => Err "enum value not found"
+                  end
+              | JStr _, _ => Err "schema"
+              | _, _ => Err "unexpected token, expected string"
+              end
+          | FObject ref =>
+              match map_get key acc with
+              | Some _ => Err "key already exists in map"
+              | None =>
+                match j, lookup env ref with
+                | JObj ms', Some (SObject props) =>
+                    obind (dec_members f d props ms' [] []) (fun sub => dec_entries f d it r (map_set key (VMsg sub) acc) seen)
+                | JObj _, _ => Err "schema"
+                | _, _ => Err "unexpected token, expected {"
+                end
+              end
+          | FOneof ref =>
+              match map_get key acc with
+              | Some _ => Err "key already exists in map"
+              | None =>
+                match j, lookup env ref with
+                | JObj ms', Some (SOneof props) =>
+                    obind (dec_oneof f d props ms' [] [] [] None) (fun sub => dec_entries f d it r (map_set key (VMsg sub) acc) seen)
+                | JObj _, _ => Err "schema"
+                | _, _ => Err "unexpected token, expected {"
+                end
+              end
+          | _ => Err "unknown map schema type"
+          end
+      end.
+  Proof. reflexivity. Qed.
+
+  Definition elem_ok (it : field_ty) (v : pval) (J : jvalue) : Prop :=
+    rep_value it v /\ dec_ok_value it v J /\ wfb J = true /\ J <> JNull.
+
+  (* the value one element of type [it] decodes to, on its own *)
+  Lemma oneof_fresh r ps mv ms F d :
+    lookup env r = Some (SOneof ps) -> rep_props ps mv -> OneofDec ps mv ms ->
+    (3 * lsize ms + 3 <= F)%nat -> depth_ok d (S (lnest ms)) ->
+    exists b, dec_oneof F d ps ms [] [] [] None = Ok b /\ equiv_props ps mv b.
+  Proof.
+    intros Hlk Hrp Hone HF Hd. inversion Hrp as [? ? Hokps _ _ _]; subst.
+    pose proof (leaves_flat ps (Hflat _ _ Hlk)) as Hlv.
+    destruct (Hone F d ps [] [] HF Hd Hokps Hrp) as (b & Hb & [I1 _]).
+    { rewrite Hlv. auto. } { apply inv_nil. } { intros q _ []. }
+    exists b. split; [exact Hb|]. constructor. intros q Hq. apply I1; [|exact Hq].
+    rewrite Hlv in Hq. apply in_or_app. left. exact Hq.
+  Qed.
+
+  Lemma items_rt it : item_ok it = true -> forall l js, Forall2 (elem_ok it) l js ->
+    forall F d acc, (3 * asize js + 3 <= F)%nat -> depth_ok d (anest js) ->
+    exists l', dec_items F d it js acc = Ok (acc ++ l') /\ Forall2 (equiv_value it) l l'.
+  Proof.
+    intros Hit l js H2. induction H2 as [|v J l js (Hrv & Hdec & Hwf & HJ) _ IH]; intros F d acc HF Hd.
+    - destruct F as [|F]; [lia|]. rewrite dec_items_S. exists []. rewrite app_nil_r. split; [reflexivity|constructor].
+    - cbn [asize fold_right] in HF. fold (asize js) in HF. cbn [anest fold_right] in Hd. fold (anest js) in Hd.
+      pose proof (jsize_pos J) as HJs.
+      destruct F as [|F]; [lia|]. rewrite dec_items_S.
+      assert (Hd' : depth_ok d (anest js)) by (unfold depth_ok in *; lia).
+      destruct it as [k|r|r|r|it'|it'|pb]; try discriminate; cbn [dec_ok_value] in Hdec.
+      + destruct Hdec as (Hnc & v' & Hds & Heq & _). rewrite Hnc, Hds. cbn [obind].
+        destruct (IH F d (acc ++ [v'])) as (l' & Hl' & Hf); [lia|exact Hd'|].
+        exists (v' :: l'). rewrite Hl', <- app_assoc. split; [reflexivity|]. constructor; [constructor; exact Heq|exact Hf].
+      + destruct Hdec as (pre & opts & s & z & Hlk & -> & Hbn & ->). rewrite Hlk, Hbn.
+        destruct (IH F d (acc ++ [VEnum z])) as (l' & Hl' & Hf); [lia|exact Hd'|].
+        exists (VEnum z :: l'). rewrite Hl', <- app_assoc. split; [reflexivity|]. constructor; [constructor|exact Hf].
+      + destruct Hdec as (ps & ms & mv & Hlk & -> & -> & Hobj). rewrite Hlk.
+        destruct (Hobj F d) as (b & Hb & Heq).
+        { rewrite jsize_obj in HF. lia. } { unfold depth_ok in *. rewrite jnest_obj in Hd. lia. }
+        rewrite Hb. cbn [obind].
+        destruct (IH F d (acc ++ [VMsg b])) as (l' & Hl' & Hf); [lia|exact Hd'|].
+        exists (VMsg b :: l'). rewrite Hl', <- app_assoc. split; [reflexivity|]. constructor; [econstructor; eassumption|exact Hf].
+      + destruct Hdec as (ps & ms & mv & Hlk & -> & -> & Hone). rewrite Hlk.
+        inversion Hrv as [| | |? ? ? Hlk' Hrp Hamo| | |]; subst. rewrite Hlk in Hlk'. injection Hlk' as <-.
+        destruct (oneof_fresh r ps mv ms F d Hlk Hrp Hone) as (b & Hb & Heq).
+        { rewrite jsize_obj in HF. lia. } { unfold depth_ok in *. rewrite jnest_obj in Hd. lia. }
+        rewrite Hb. cbn [obind].
+        destruct (IH F d (acc ++ [VMsg b])) as (l' & Hl' & Hf); [lia|exact Hd'|].
+        exists (VMsg b :: l'). rewrite Hl', <- app_assoc. split; [reflexivity|]. constructor; [econstructor; eassumption|exact Hf].
+  Qed.
+
+  Lemma map_set_fresh k x acc : map_get k acc = None -> map_set k x acc = acc ++ [(k, x)].
+  Proof.
+    induction acc as [|[k' w] r IH]; intros H; [reflexivity|]. cbn [map_get map_set] in *.
+    destruct (bytes_eqb k' k); [discriminate|]. rewrite IH by exact H. reflexivity.
+  Qed.
+
+  Lemma map_get_snoc k k1 x acc : k <> k1 -> map_get k (acc ++ [(k1, x)]) = map_get k acc.
+  Proof.
+    intros Hne. induction acc as [|[k' w] r IH]; cbn [app map_get].
+    - rewrite (bytes_eqb_neq k1 k) by congruence. reflexivity.
+    - destruct (bytes_eqb k' k); [reflexivity|exact IH].
+  Qed.
+
+  Lemma mem_b_false x l : mem_b x l = false <-> ~ In x l.
+  Proof.
+    induction l as [|y r IH]; cbn [mem_b In]; [tauto|]. split.
+    - intros H. apply orb_false_iff in H as [H1 H2]. intros [->|Hin]; [rewrite bytes_eqb_refl in H1; discriminate|].
+      apply IH in H2. contradiction.
+    - intros H. apply orb_false_iff. split; [apply bytes_eqb_neq; intros ->; apply H; left; reflexivity|].
+      apply IH. intros Hin. apply H. right. exact Hin.
+  Qed.
+
+  Lemma entries_rt it : item_ok it = true -> forall es ms,
+    Forall2 (fun kv km => fst kv = fst km /\ elem_ok it (snd kv) (snd km)) es ms ->
+    NoDup (map fst ms) ->
+    forall F d acc seen, (3 * lsize ms + 3 <= F)%nat -> depth_ok d (lnest ms) ->
+      (forall k, In k (map fst ms) -> map_get k acc = None /\ ~ In k seen) ->
+    exists es', dec_entries F d it ms acc seen = Ok (acc ++ es') /\
+                Forall2 (fun kv kv' => fst kv = fst kv' /\ equiv_value it (snd kv) (snd kv')) es es'.
+  Proof.
+    intros Hit es ms H2. induction H2 as [|[k v] [k' J] es ms (Hk & Hrv & Hdec & Hwf & HJ) _ IH]; intros Hnd F d acc seen HF Hd Hfresh.
+    - destruct F as [|F]; [lia|]. rewrite dec_entries_S. exists []. rewrite app_nil_r. split; [reflexivity|constructor].
+    - cbn [fst snd] in *. subst k'. cbn [map fst] in Hnd. inversion Hnd as [|? ? Hni Hnd']; subst.
+      cbn [lsize fold_right snd] in HF. fold (lsize ms) in HF. cbn [lnest fold_right snd] in Hd. fold (lnest ms) in Hd.
+      pose proof (jsize_pos J) as HJs.
+      destruct (Hfresh k (or_introl eq_refl)) as [Hget Hseen]. apply mem_b_false in Hseen.
+      destruct F as [|F]; [lia|]. rewrite dec_entries_S.
+      assert (Hd' : depth_ok d (lnest ms)) by (unfold depth_ok in *; lia).
+      assert (Hnext : forall x s2, (s2 = seen \/ s2 = k :: seen) ->
+                forall k2, In k2 (map fst ms) -> map_get k2 (acc ++ [(k, x)]) = None /\ ~ In k2 s2).
+      { intros x s2 Hs2 k2 Hk2. assert (Hne : k2 <> k) by (intros ->; contradiction).
+        destruct (Hfresh k2 (or_intror Hk2)) as [Hg Hs]. split; [rewrite map_get_snoc by exact Hne; exact Hg|].
+        destruct Hs2 as [->| ->]; [exact Hs|]. intros [E|Hin]; [congruence|contradiction]. }
+      destruct it as [sk|r|r|r|it'|it'|pb]; try discriminate; cbn [dec_ok_value] in Hdec.
+      + destruct Hdec as (Hnc & v' & Hds & Heq & _). rewrite Hseen, Hget, andb_false_r, Hnc, Hds. cbn [obind].
+        rewrite map_set_fresh by exact Hget.
+        destruct (IH Hnd' F d (acc ++ [(k, v')]) (k :: seen)) as (es' & Hes' & Hf); [lia|exact Hd'|apply Hnext; right; reflexivity|].
+        exists ((k, v') :: es'). rewrite Hes', <- app_assoc. split; [reflexivity|].
+        constructor; [split; [reflexivity|constructor; exact Heq]|exact Hf].
+      + destruct Hdec as (pre & opts & s & z & Hlk & -> & Hbn & ->). rewrite Hseen, Hget, andb_false_r, Hlk, Hbn.
+        rewrite map_set_fresh by exact Hget.
+        destruct (IH Hnd' F d (acc ++ [(k, VEnum z)]) (k :: seen)) as (es' & Hes' & Hf); [lia|exact Hd'|apply Hnext; right; reflexivity|].
+        exists ((k, VEnum z) :: es'). rewrite Hes', <- app_assoc. split; [reflexivity|].
+        constructor; [split; [reflexivity|constructor]|exact Hf].
+      + destruct Hdec as (ps & ms' & mv & Hlk & -> & -> & Hobj). rewrite Hget, Hlk.
+        destruct (Hobj F d) as (b & Hb & Heq).
+        { rewrite jsize_obj in HF. lia. } { unfold depth_ok in *. rewrite jnest_obj in Hd. lia. }
+        rewrite Hb. cbn [obind]. rewrite map_set_fresh by exact Hget.
+        destruct (IH Hnd' F d (acc ++ [(k, VMsg b)]) seen) as (es' & Hes' & Hf); [lia|exact Hd'|apply Hnext; left; reflexivity|].
+        exists ((k, VMsg b) :: es'). rewrite Hes', <- app_assoc. split; [reflexivity|].
+        constructor; [split; [reflexivity|econstructor; eassumption]|exact Hf].
+      + destruct Hdec as (ps & ms' & mv & Hlk & -> & -> & Hone). rewrite Hget, Hlk.
+        inversion Hrv as [| | |? ? ? Hlk' Hrp Hamo| | |]; subst. rewrite Hlk in Hlk'. injection Hlk' as <-.
+        destruct (oneof_fresh r ps mv ms' F d Hlk Hrp Hone) as (b & Hb & Heq).
+        { rewrite jsize_obj in HF. lia. } { unfold depth_ok in *. rewrite jnest_obj in Hd. lia. }
+        rewrite Hb. cbn [obind]. rewrite map_set_fresh by exact Hget.
+        destruct (IH Hnd' F d (acc ++ [(k, VMsg b)]) seen) as (es' & Hes' & Hf); [lia|exact Hd'|apply Hnext; left; reflexivity|].
+        exists ((k, VMsg b) :: es'). rewrite Hes', <- app_assoc. split; [reflexivity|].
+        constructor; [split; [reflexivity|econstructor; eassumption]|exact Hf].
+  Qed.
+
+  (* ---------------------------------------------------------------- the induction over the encoder *)
+  Hypothesis Hscalar : scalar_rt_ok fmt_float dsc.
+  Hypothesis Hinner : inner_ok any_inner.
+
+  Notation enc_value := (enc_value fmt_float any_inner env).
+  Notation enc_object := (enc_object fmt_float any_inner env).
+  Notation enc_oneof := (enc_oneof fmt_float any_inner env).
+
+  Definition T_value (f : nat) : Prop := forall t v txt,
+    enc_value f t v = Ok txt -> rep_value t v ->
+    exists J, txt = print J /\ wfb J = true /\ J <> JNull /\ dec_ok_value t v J.
+  Definition T_object (f : nat) : Prop := forall ps m txt,
+    enc_object f ps m = Ok txt -> rep_props ps m ->
+    exists ms, txt = print (JObj ms) /\ wfb (JObj ms) = true /\ ObjDec ps m ms.
+  Definition T_oneof (f : nat) : Prop := forall r qs m txt,
+    lookup env r = Some (SOneof qs) -> enc_oneof f qs m = Ok txt ->
+    (forall q v, In q qs -> present (p_path q) m = Some v -> rep_value (p_ty q) v) ->
+    exists ms, txt = print (JObj ms) /\ wfb (JObj ms) = true /\ OneofDec qs m ms.
+
+  Lemma prop_present_leaf p m : p_path p <> [] -> prop_present env p m = present (p_path p) m.
+  Proof. intros H. unfold prop_present. destruct (p_path p); [congruence|reflexivity]. Qed.
+
+  Lemma NoDup_app_l {A} (a b : list A) : NoDup (a ++ b) -> NoDup a /\ NoDup b /\ forall x, In x a -> ~ In x b.
+  Proof.
+    induction a as [|x a IH]; cbn [app]; intros H.
+    - split; [constructor|]. split; [exact H|]. intros x [].
+    - inversion H as [|? ? Hni Hnd]; subst. destruct (IH Hnd) as (Ha & Hb & Hd). split; [|split; [exact Hb|]].
+      + constructor; [|exact Ha]. intros Hin. apply Hni. apply in_or_app. left. exact Hin.
+      + intros y [<-|Hy]; [intros Hin; apply Hni; apply in_or_app; right; exact Hin|apply Hd; exact Hy].
+  Qed.
+
+  Lemma mp_in qs m q v : In (q, v) (members_present qs m) -> In q qs /\ present (p_path q) m = Some v.
+  Proof.
+    unfold members_present. intros H. apply in_flat_map in H as (x & Hx & Hi).
+    destruct (present (p_path x) m) eqn:P; [|contradiction]. destruct Hi as [[= <- <-]|[]]. split; assumption.
+  Qed.
+
+  Lemma mp_nodup qs m : NoDup qs -> NoDup (map fst (members_present qs m)).
+  Proof.
+    unfold members_present. induction 1 as [|z r Hni Hnd IH]; cbn [flat_map map]; [constructor|].
+    destruct (present (p_path z) m) eqn:P; cbn [app map fst]; [|exact IH].
+    constructor; [|exact IH]. intros Hin. apply in_map_iff in Hin as ([q v] & Hq & Hin). cbn [fst] in Hq. subst q.
+    apply (mp_in r m z v) in Hin as [Hin _]. contradiction.
+  Qed.
+
+  (* members of an exposed oneof that is not "set": none is populated *)
+  Lemma exposed_unset m qs : (forall q1 q2, In q1 qs -> In q2 qs ->
+        present (p_path q1) m <> None -> present (p_path q2) m <> None -> q1 = q2) ->
+    NoDup qs ->
+    (match members_present qs m with [_] => Some (VMsg m) | _ => None end) = None ->
+    forall q, In q qs -> present (p_path q) m = None.
+  Proof.
+    intros Hone Hnd Hmp. pose proof (members_spec qs m) as Hs. pose proof (mp_nodup qs m Hnd) as Hn.
+    destruct (members_present qs m) as [|[q1 v1] [|[q2 v2] t]] eqn:E.
+    - exact Hs.
+    - discriminate.
+    - exfalso.
+      destruct (mp_in qs m q1 v1 ltac:(rewrite E; left; reflexivity)) as [Hi1 P1].
+      destruct (mp_in qs m q2 v2 ltac:(rewrite E; right; left; reflexivity)) as [Hi2 P2].
+      assert (Heq : q1 = q2) by (apply Hone; try assumption; congruence).
+      cbn [map fst] in Hn. inversion Hn as [|? ? Hni _]; subst. apply Hni. left. reflexivity.
+  Qed.
+
+  Lemma members_rt f m ps :
+    T_value f -> (forall f', f = S f' -> T_oneof f') -> props_ok ps -> rep_props ps m ->
+    forall ps1 xs,
+      sequence (map (fun p => obind (prop_lookup env lookup_fuel p m) (fun ov =>
+                  match ov with
+                  | None => Ok []
+                  | Some v => obind (escape (p_json p)) (fun l => omap (fun b => [member l b]) (enc_value f (p_ty p) v))
+                  end)) ps1) = Ok xs ->
+      (forall p, In p ps1 -> In p ps) -> NoDup (map p_json ps1) -> NoDup (leaves ps1) ->
+      exists ms1, concat xs = map member_text ms1 /\
+        forallb (fun kv => valid_utf8 (fst kv) && wfb (snd kv)) ms1 = true /\
+        forall F d acc D seen, (3 * lsize ms1 + 3 <= F)%nat -> depth_ok d (S (lnest ms1)) ->
+          Inv (leaves ps) m D acc -> (forall l, In l (leaves ps1) -> ~ In l D) ->
+          (forall p, In p ps1 -> ~ In (p_json p) seen) ->
+          exists acc', dec_members F d ps ms1 acc seen = Ok acc' /\ Inv (leaves ps) m (leaves ps1 ++ D) acc'.
+  Proof.
+    intros TV TO Hok Hrep. inversion Hrep as [? ? _ Hvals Hexcl Hexp]; subst.
+    induction ps1 as [|p r IH]; intros xs H Hsub Hndn Hndl; cbn [map sequence] in H.
+    - injection H as <-. exists []. split; [reflexivity|]. split; [reflexivity|].
+      intros F d acc D seen HF Hd HInv _ _. destruct F as [|F]; [lia|]. rewrite dec_members_S.
+      exists acc. split; [reflexivity|exact HInv].
+    - apply obind_ok in H as (x & Hx & H). apply omap_ok in H as (ys & Hys & ->).
+      apply obind_ok in Hx as (ov & Hov & Hx). apply (prop_lookup_present env Hflat) in Hov.
+      cbn [map] in Hndn. apply NoDup_cons_iff in Hndn as [Hnin Hndn'].
+      assert (Hleaves : leaves (p :: r) = prop_leaves p ++ leaves r) by reflexivity.
+      rewrite Hleaves in Hndl. destruct (NoDup_app_l _ _ Hndl) as (Hndp & Hndr & Hdisj).
+      destruct (IH ys Hys ltac:(intros; apply Hsub; right; assumption) Hndn' Hndr) as (ms & Hc & Hwf & Hloop).
+      assert (Hp : In p ps) by (apply Hsub; left; reflexivity).
+      assert (Hpl : forall l, In l (prop_leaves p) -> In l (leaves ps)).
+      { intros l Hl0. unfold leaves. apply in_flat_map. exists p. split; assumption. }
+      destruct ov as [v|].
+      + (* the property is set: one member *)
+        apply obind_ok in Hx as (lb & Hlb & Hx). apply omap_ok in Hx as (b & Hb & ->).
+        apply escape_ok in Hlb as [Hk ->].
+        destruct (p_path p) as [|p0 pr] eqn:Epath.
+        * (* exposed oneof: the value is the message itself *)
+          unfold prop_present in Hov. rewrite Epath in Hov.
+          destruct (p_ty p) as [| | |ro| | |] eqn:Ety; try discriminate.
+          destruct (lookup env ro) as [[|qs|]|] eqn:Elk; try discriminate.
+          assert (Hv : v = VMsg m) by (destruct (members_present qs m) as [|? [|]]; congruence). subst v.
+          assert (Hpq : prop_leaves p = qs) by (unfold prop_leaves; rewrite Epath, Ety, Elk; reflexivity).
+          destruct f as [|f']; [discriminate|]. rewrite enc_value_S in Hb. rewrite Elk in Hb.
+          destruct (TO f' eq_refl ro qs m b Elk Hb) as (oms & -> & Hwo & Hone).
+          { intros q w Hq Hw. apply (Hvals q w); [apply Hpl; rewrite Hpq; exact Hq|exact Hw]. }
+          exists ((p_json p, JObj oms) :: ms). split; [cbn [concat map app]; rewrite Hc; reflexivity|].
+          split; [cbn [forallb fst snd]; rewrite Hk, Hwo, Hwf; reflexivity|].
+          intros F d acc D seen HF Hd HInv HnD Hseen.
+          cbn [lsize fold_right snd] in HF. fold (lsize ms) in HF. rewrite jsize_obj in HF.
+          cbn [lnest fold_right snd] in Hd. fold (lnest ms) in Hd. rewrite jnest_obj in Hd.
+          destruct F as [|F]; [lia|]. rewrite dec_members_S.
+          rewrite (find_prop_nodup ps p (po_names ps Hok) Hp).
+          destruct F as [|F]; [lia|]. rewrite dec_member_S.
+          replace (max_nesting <? d + 1) with false by (unfold depth_ok in Hd; lia).
+          replace (mem_b (p_json p) seen) with false by (symmetry; apply mem_b_false; apply Hseen; left; reflexivity).
+          rewrite Epath. cbn [oneof_conflict].
+          destruct F as [|F]; [lia|]. rewrite dec_value_S. rewrite Ety, Elk, Epath.
+          destruct (Hone F (d + 1) ps acc D) as (acc1 & Hd1 & HInv1); try assumption.
+          { lia. } { unfold depth_ok in *. lia. }
+          { intros q Hq. apply Hpl. rewrite Hpq. exact Hq. }
+          { intros q Hq. apply HnD. rewrite Hleaves. apply in_or_app. left. rewrite Hpq. exact Hq. }
+          rewrite Hd1. cbn [obind fst snd].
+          destruct (Hloop (S (S F)) d acc1 (qs ++ D) (p_json p :: seen)) as (acc2 & Hd2 & HInv2); try assumption.
+          { lia. } { unfold depth_ok in *. lia. }
+          { intros l Hl0 Hin. apply in_app_or in Hin as [Hq|HD].
+            - apply (Hdisj l); [rewrite Hpq; exact Hq|exact Hl0].
+            - apply (HnD l); [rewrite Hleaves; apply in_or_app; right; exact Hl0|exact HD]. }
+          { intros q Hq [E|Hin]; [apply Hnin; rewrite E; apply in_map; exact Hq|].
+            apply (Hseen q); [right; exact Hq|exact Hin]. }
+          exists acc2. split; [exact Hd2|].
+          apply (inv_extend _ _ (leaves r ++ qs ++ D)); [exact HInv2| |].
+          -- intros l Hin. rewrite Hleaves, Hpq. apply in_app_or in Hin as [H1|H1]; [apply in_or_app; left; apply in_or_app; right; exact H1|].
+             apply in_app_or in H1 as [H1|H1]; [apply in_or_app; left; apply in_or_app; left; exact H1|apply in_or_app; right; exact H1].
+          -- intros l Hin _. left. rewrite Hleaves, Hpq in Hin. apply in_app_or in Hin as [H1|H1]; [|apply in_or_app; right; apply in_or_app; right; exact H1].
+             apply in_app_or in H1 as [H1|H1]; [apply in_or_app; right; apply in_or_app; left; exact H1|apply in_or_app; left; exact H1].
+        * (* a leaf *)
+          assert (Hne : p_path p <> []) by (rewrite Epath; discriminate).
+          rewrite (prop_present_leaf p m Hne) in Hov.
+          assert (Hpq : prop_leaves p = [p]) by (unfold prop_leaves; destruct (p_path p); [congruence|reflexivity]).
+          assert (HpL : In p (leaves ps)) by (apply Hpl; rewrite Hpq; left; reflexivity).
+          destruct (Hvals p v HpL Hov) as [Hrv _].
+          destruct (TV _ _ _ Hb Hrv) as (J & -> & HwJ & HJ & Hdec).
+          exists ((p_json p, J) :: ms). split; [cbn [concat map app]; rewrite Hc; reflexivity|].
+          split; [cbn [forallb fst snd]; rewrite Hk, HwJ, Hwf; reflexivity|].
+          intros F d acc D seen HF Hd HInv HnD Hseen.
+          cbn [lsize fold_right snd] in HF. fold (lsize ms) in HF.
+          cbn [lnest fold_right snd] in Hd. fold (lnest ms) in Hd.
+          destruct F as [|F]; [lia|]. rewrite dec_members_S.
+          rewrite (find_prop_nodup ps p (po_names ps Hok) Hp).
+          destruct (leaf_read ps m D acc p v J F d seen Hok Hrep HInv HpL) as (acc1 & Hd1 & HInv1); try assumption.
+          { apply HnD. rewrite Hleaves, Hpq. left. reflexivity. }
+          { lia. } { unfold depth_ok in *. lia. }
+          { apply mem_b_false. apply Hseen. left. reflexivity. }
+          rewrite Hd1. cbn [obind fst snd].
+          pose proof (jsize_pos J) as HJs.
+          destruct (Hloop F d acc1 (p :: D) (p_json p :: seen)) as (acc2 & Hd2 & HInv2); try assumption.
+          { lia. } { unfold depth_ok in *. lia. }
+          { intros l Hl0 [<-|HD]; [apply (Hdisj p); [rewrite Hpq; left; reflexivity|exact Hl0]|].
+            apply (HnD l); [rewrite Hleaves; apply in_or_app; right; exact Hl0|exact HD]. }
+          { intros q Hq [E|Hin]; [apply Hnin; rewrite E; apply in_map; exact Hq|].
+            apply (Hseen q); [right; exact Hq|exact Hin]. }
+          exists acc2. split; [exact Hd2|].
+          apply (inv_extend _ _ (leaves r ++ p :: D)); [exact HInv2| |].
+          -- intros l Hin. rewrite Hleaves, Hpq. cbn [app]. apply in_app_or in Hin as [H1|[<-|H1]];
+               [right; apply in_or_app; left; exact H1|left; reflexivity|right; apply in_or_app; right; exact H1].
+          -- intros l Hin _. left. rewrite Hleaves, Hpq in Hin. cbn [app] in Hin. destruct Hin as [<-|Hin];
+               [apply in_or_app; right; left; reflexivity|].
+             apply in_app_or in Hin as [H1|H1]; [apply in_or_app; left; exact H1|apply in_or_app; right; right; exact H1].
+      + (* not set: no member; its leaves are unpopulated in the original *)
+        injection Hx as <-. exists ms. split; [exact Hc|]. split; [exact Hwf|].
+        intros F d acc D seen HF Hd HInv HnD Hseen.
+        destruct (Hloop F d acc D seen HF Hd HInv) as (acc2 & Hd2 & HInv2).
+        { intros l Hl0. apply HnD. rewrite Hleaves. apply in_or_app. right. exact Hl0. }
+        { intros q Hq. apply Hseen. right. exact Hq. }
+        exists acc2. split; [exact Hd2|].
+        apply (inv_extend _ _ (leaves r ++ D)); [exact HInv2| |].
+        * intros l Hin. rewrite Hleaves. apply in_app_or in Hin as [H1|H1];
+            [apply in_or_app; left; apply in_or_app; right; exact H1|apply in_or_app; right; exact H1].
+        * intros l Hin HL. rewrite Hleaves in Hin. apply in_app_or in Hin as [H1|H1]; [|left; apply in_or_app; right; exact H1].
+          apply in_app_or in H1 as [H1|H1]; [|left; apply in_or_app; left; exact H1].
+          right. (* a leaf of the unset property *)
+          destruct (p_path p) as [|p0 pr] eqn:Epath.
+          -- unfold prop_present in Hov. rewrite Epath in Hov. unfold prop_leaves in H1. rewrite Epath in H1.
+             destruct (p_ty p) as [| | |ro| | |] eqn:Ety; try contradiction.
+             destruct (lookup env ro) as [[|qs|]|] eqn:Elk; try contradiction.
+             eapply (exposed_unset m qs); [| |exact Hov|exact H1].
+             ++ intros q1 q2 Hq1 Hq2. apply (Hexp p q1 q2 Hp); unfold exposed_members, prop_leaves; rewrite Epath, Ety, Elk; assumption.
+             ++ unfold prop_leaves in Hndp. rewrite Epath, Ety, Elk in Hndp. exact Hndp.
+          -- assert (Hne : p_path p <> []) by (rewrite Epath; discriminate).
+             rewrite (prop_present_leaf p m Hne) in Hov.
+             unfold prop_leaves in H1. destruct (p_path p) eqn:E2; [congruence|]. destruct H1 as [<-|[]]. rewrite E2. exact Hov.
+  Qed.
+
+  Lemma kept_scalar_equiv k v v' e : scalar_equiv k v v' -> kept e v = true -> kept e v' = true.
+  Proof.
+    unfold scalar_equiv. destruct k; try (intros ->; auto).
+    intros (s & s' & -> & _ & -> & _) _. unfold mk_decimal, wkt_fields. cbn. destruct e; reflexivity.
+  Qed.
+
+  Lemma T_all : forall f, T_value f /\ T_object f /\ T_oneof f.
+  Proof.
+    induction f as [f IHf] using lt_wf_ind.
+    assert (TV : forall f', (f' < f)%nat -> T_value f') by (intros f' H; apply (IHf f' H)).
+    assert (TOb : forall f', (f' < f)%nat -> T_object f') by (intros f' H; apply (IHf f' H)).
+    assert (TOn : forall f', (f' < f)%nat -> T_oneof f') by (intros f' H; apply (IHf f' H)).
+    destruct f as [|f]; [repeat split; intros *; cbn; discriminate || (intros; discriminate)|].
+    (* ---- objects *)
+    assert (Hobj : T_object (S f)).
+    { intros ps m txt H Hrep. rewrite enc_object_S in H. apply omap_ok in H as (xs & Hxs & ->).
+      inversion Hrep as [? ? Hok _ _ _]; subst.
+      destruct (members_rt f m ps (TV f ltac:(lia)) ltac:(intros f' ->; apply TOn; lia) Hok Hrep ps xs Hxs
+                  ltac:(auto) (po_names ps Hok) (po_nodup ps Hok)) as (ms & Hc & Hwf & Hloop).
+      exists ms. split; [rewrite print_obj', Hc; reflexivity|]. split; [exact Hwf|].
+      intros F d HF Hd. destruct (Hloop F d [] [] [] HF Hd (inv_nil _ _)) as (b & Hb & [I1 _]).
+      { intros l _ []. } { intros p _ []. }
+      exists b. split; [exact Hb|]. constructor. intros l Hl. apply I1; [|exact Hl]. apply in_or_app. left. exact Hl. }
+    (* ---- oneofs *)
+    assert (Hone : T_oneof (S f)).
+    { intros r qs m txt Hlk H Hvals. rewrite enc_oneof_S in H.
+      apply obind_ok in H as (o & Ho & H). pose proof (Hflat _ _ Hlk) as HF.
+      apply (get_one_spec env qs m o HF) in Ho.
+      assert (Hpp : forall q, In q qs -> prop_present env q m = present (p_path q) m).
+      { intros q Hq. apply prop_present_leaf. rewrite Forall_forall in HF. apply HF. exact Hq. }
+      destruct o as [[q v]|].
+      - destruct Ho as (Hq & Hpv & Hoth). rewrite Hpp in Hpv by exact Hq.
+        apply obind_ok in H as (l1 & Hl1 & H). apply obind_ok in H as (nm & Hnm & H).
+        apply obind_ok in H as (b & Hb & H). injection H as <-.
+        apply escape_ok in Hl1 as [_ ->]. apply escape_ok in Hnm as [Hk ->].
+        destruct (TV f ltac:(lia) _ _ _ Hb (Hvals q v Hq Hpv)) as (J & -> & HwJ & HJ & Hdec).
+        exists [(txt_type, JStr (p_json q)); (p_json q, J)]. split; [rewrite print_two; reflexivity|].
+        split; [cbn [wfb forallb fst snd]; rewrite Hk, HwJ; reflexivity|].
+        eapply oneof_dec_one; try eassumption.
+        intros q' Hq' Hne. rewrite <- Hpp by exact Hq'. apply Hoth; assumption.
+      - injection H as <-. exists []. split; [reflexivity|]. split; [reflexivity|].
+        eapply oneof_dec_empty; [exact Hlk|]. intros q Hq. rewrite <- Hpp by exact Hq. apply Ho. exact Hq. }
+    split; [|split; assumption].
+    (* ---- values *)
+    intros t v txt H Hrv. rewrite enc_value_S in H. destruct t as [k|r|r|r|it|it|pb].
+    - (* scalar *)
+      inversion Hrv as [? ? Hrs| | | | | |]; subst.
+      destruct (Hscalar k v Hrs)
+        as (J & (txt0 & He & ->) & Hw & Hnc & HJ & v' & Hds & Heq).
+      rewrite He in H. injection H as <-.
+      exists J. split; [reflexivity|]. split; [exact Hw|]. split; [exact HJ|].
+      cbn [dec_ok_value]. split; [exact Hnc|]. exists v'. split; [exact Hds|]. split; [exact Heq|].
+      intros e. apply (kept_scalar_equiv k v v' e Heq).
+    - (* enum *)
+      inversion Hrv as [|? ? ? ? ? Hlk Hbn Hbnm Hvn| | | | |]; subst. rewrite Hlk, Hbn in H.
+      apply escape_ok in H as [Hv ->]. exists (JStr name). split; [reflexivity|]. split; [exact Hv|]. split; [discriminate|].
+      cbn [dec_ok_value]. exists pre, opts, name, n. repeat split; assumption.
+    - (* object *)
+      inversion Hrv as [| |? ? ? Hlk Hrp| | | |]; subst. rewrite Hlk in H.
+      destruct (TOb f ltac:(lia) _ _ _ H Hrp) as (ms & -> & Hw & Hd).
+      exists (JObj ms). split; [reflexivity|]. split; [exact Hw|]. split; [discriminate|].
+      cbn [dec_ok_value]. exists ps, ms, m. repeat split; assumption.
+    - (* oneof *)
+      inversion Hrv as [| | |? ? ? Hlk Hrp Hamo| | |]; subst. rewrite Hlk in H.
+      inversion Hrp as [? ? Hokps Hvals _ _]; subst.
+      pose proof (leaves_flat ps (Hflat _ _ Hlk)) as Hlv.
+      destruct (TOn f ltac:(lia) r ps m txt Hlk H) as (ms & -> & Hw & Hd).
+      { intros q w Hq Hw. apply (Hvals q w); [rewrite Hlv; exact Hq|exact Hw]. }
+      exists (JObj ms). split; [reflexivity|]. split; [exact Hw|]. split; [discriminate|].
+      cbn [dec_ok_value]. exists ps, ms, m. repeat split; assumption.
+    - (* array *)
+      inversion Hrv as [| | | |? ? Hne Hit Hall| |]; subst.
+      apply omap_ok in H as (xs & Hxs & ->).
+      assert (Hel : exists js, xs = map print js /\ forallb wfb js = true /\ Forall2 (elem_ok it) l js).
+      { clear Hne Hrv. revert xs Hxs. induction Hall as [|x r Hx Hr IH]; intros xs Hxs; cbn [map sequence] in Hxs.
+        - injection Hxs as <-. exists []. repeat split; constructor.
+        - apply obind_ok in Hxs as (b & Hb & Hxs). apply omap_ok in Hxs as (ys & Hys & ->).
+          destruct (TV f ltac:(lia) _ _ _ Hb Hx) as (J & -> & HwJ & HJ & Hdec).
+          destruct (IH ys Hys) as (js & -> & Hwjs & Hf2).
+          exists (J :: js). split; [reflexivity|]. split; [cbn [forallb]; rewrite HwJ, Hwjs; reflexivity|].
+          constructor; [repeat split; assumption|exact Hf2]. }
+      destruct Hel as (js & -> & Hwjs & Hf2).
+      exists (JArr js). split; [reflexivity|]. split; [exact Hwjs|]. split; [discriminate|].
+      cbn [dec_ok_value]. exists js, l. split; [reflexivity|]. split; [reflexivity|].
+      intros F d HF Hd. destruct (items_rt it Hit l js Hf2 F d [] HF Hd) as (l' & Hl' & Hf).
+      exists l'. split; [exact Hl'|]. split; [exact Hf|].
+      intros ->. inversion Hf; subst. congruence.
+    - (* map *)
+      inversion Hrv as [| | | | |? ? Hne Hit Hnd Hall Hku|]; subst.
+      apply omap_ok in H as (xs & Hxs & ->).
+      assert (Hel : exists ms, xs = map member_text ms /\
+                forallb (fun kv => valid_utf8 (fst kv) && wfb (snd kv)) ms = true /\
+                Forall2 (fun kv km => fst kv = fst km /\ elem_ok it (snd kv) (snd km)) es ms).
+      { clear Hne Hnd Hrv Hku. revert xs Hxs. induction Hall as [|[k x] r Hx Hr IH]; intros xs Hxs; cbn [map sequence] in Hxs.
+        - injection Hxs as <-. exists []. repeat split; constructor.
+        - apply obind_ok in Hxs as (b & Hb & Hxs). apply omap_ok in Hxs as (ys & Hys & ->).
+          cbn [fst snd] in *. apply obind_ok in Hb as (lb & Hlb & Hb). apply omap_ok in Hb as (b' & Hb' & ->).
+          apply escape_ok in Hlb as [Hk ->].
+          destruct (TV f ltac:(lia) _ _ _ Hb' Hx) as (J & -> & HwJ & HJ & Hdec).
+          destruct (IH ys Hys) as (ms & -> & Hwms & Hf2).
+          exists ((k, J) :: ms). split; [reflexivity|]. split; [cbn [forallb fst snd]; rewrite Hk, HwJ, Hwms; reflexivity|].
+          constructor; [split; [reflexivity|repeat split; assumption]|exact Hf2]. }
+      destruct Hel as (ms & -> & Hwms & Hf2).
+      exists (JObj ms). split; [reflexivity|]. split; [exact Hwms|]. split; [discriminate|].
+      cbn [dec_ok_value]. exists ms, es. split; [reflexivity|]. split; [reflexivity|].
+      assert (Hkeys : map fst ms = map fst es).
+      { clear - Hf2. induction Hf2 as [|? ? ? ? [Hk _] _ IH]; [reflexivity|]. cbn [map]. rewrite IH, Hk. reflexivity. }
+      assert (Hndm : NoDup (map fst ms)) by (rewrite Hkeys; exact Hnd).
+      intros F d HF Hd. destruct (entries_rt it Hit es ms Hf2 Hndm F d [] [] HF Hd) as (es' & Hes' & Hf).
+      { intros k _. split; [reflexivity|intros []]. }
+      exists es'. split; [exact Hes'|]. split; [exact Hf|].
+      intros ->. inversion Hf as [|? ? ? ? ? ? E1 E2]; subst. apply Hne. reflexivity.
+    - (* any *)
+      destruct v as [| | | | | |m| |]; try discriminate.
+      inversion Hrv as [| | | | | |? Hvt Hshape Hraw Hat]; subst.
+      unfold enc_any in H.
+      apply obind_ok in H as (tn0 & Htn & H). apply obind_ok in H as (data & Hdata & H).
+      apply obind_ok in H as (l1 & Hl1 & H). apply obind_ok in H as (t & Ht & H).
+      apply obind_ok in H as (l2 & Hl2 & H). injection H as <-.
+      apply escape_ok in Hl1 as [_ ->]. apply escape_ok in Hl2 as [_ ->]. apply escape_ok in Ht as [Hvtn ->].
+      cbv iota in Hdata, Hvtn |- *.
+      pose proof (field_bytes_s _ _ _ Htn) as Hs1.
+      assert (Hc : compact_json data /\ any_text m = Ok data).
+      { unfold any_text. rewrite Hs1.
+        destruct (msg_get 3 m) as [v3|] eqn:E3.
+        - destruct (Hshape 3 v3 E3) as [(Hn & _)|[(Hn & _)|(_ & s & ->)]]; try discriminate.
+          injection Hdata as <-. split; [|reflexivity]. apply Hraw. reflexivity.
+        - apply obind_ok in Hdata as (pbytes & Hpb & Hd). rewrite (field_bytes_s _ _ _ Hpb).
+          split; [eapply Hinner; exact Hd|exact Hd]. }
+      destruct Hc as [(Jd & Hwd & ->) Htxt].
+      exists (JObj [(txt_type, JStr tn0); (txt_value, Jd)]). split; [rewrite print_two; reflexivity|].
+      split; [cbn [wfb forallb fst snd]; rewrite Hvtn, Hwd; reflexivity|]. split; [discriminate|].
+      cbn [dec_ok_value]. split; [reflexivity|]. exists [(txt_type, JStr tn0); (txt_value, Jd)], m, tn0, Jd.
+      repeat split; try assumption; try reflexivity. symmetry. exact Hs1.
+  Qed.
+
+  (* ---------------------------------------------------------------- the codec round trip *)
+  Definition rep_root (root : bytes) (m : msg) : Prop :=
+    match lookup env root with
+    | Some (SObject ps) => rep_props ps m
+    | Some (SOneof ps) =>
+        rep_props ps m /\
+        (forall q1 q2, In q1 ps -> In q2 ps ->
+           present (p_path q1) m <> None -> present (p_path q2) m <> None -> q1 = q2)
+    | _ => False
+    end.
+  Definition equiv_root (root : bytes) (m m' : msg) : Prop :=
+    match lookup env root with
+    | Some (SObject ps) | Some (SOneof ps) => equiv_props ps m m'
+    | _ => False
+    end.
+
+  Theorem codec_roundtrip root m txt :
+    rep_root root m -> encode fmt_float any_inner env root m = Ok txt ->
+    exists J, strict_parse txt = Some J /\
+      (N.of_nat (jnest J) <= max_nesting ->
+       exists m', decode_tree dsc raw mapchk env root J = Ok m' /\ equiv_root root m m').
+  Proof.
+    unfold rep_root, equiv_root, encode, encode_fuel, decode_tree, decode_tree_fuel. intros Hrep H.
+    set (f := (4 * pval_depth (VMsg m) + 4)%nat) in *. destruct (T_all f) as (_ & TOb & TOn).
+    destruct (lookup env root) as [[ps|ps|]|] eqn:Elk; try contradiction.
+    - destruct (TOb _ _ _ H Hrep) as (ms & -> & Hw & Hd). exists (JObj ms). split; [apply parse_print; exact Hw|].
+      intros Hn. rewrite jnest_obj in Hn.
+      destruct (Hd (3 * jsize (JObj ms) + 3)%nat 0) as (b & Hb & Heq).
+      { rewrite jsize_obj. lia. } { unfold depth_ok. lia. }
+      exists b. split; assumption.
+    - destruct Hrep as [Hrep _]. inversion Hrep as [? ? Hok Hvals _ _]; subst.
+      pose proof (leaves_flat ps (Hflat _ _ Elk)) as Hlv.
+      destruct (TOn root ps m txt Elk H) as (ms & -> & Hw & Hd).
+      { intros q w Hq Hw. apply (Hvals q w); [rewrite Hlv; exact Hq|exact Hw]. }
+      exists (JObj ms). split; [apply parse_print; exact Hw|].
+      intros Hn. rewrite jnest_obj in Hn.
+      destruct (oneof_fresh root ps m ms (3 * jsize (JObj ms) + 3)%nat 0 Elk Hrep Hd) as (b & Hb & Heq).
+      { rewrite jsize_obj. lia. } { unfold depth_ok. lia. }
+      exists b. split; assumption.
+  Qed.
+
+  (* ---------------------------------------------------------------- the static conditions, decided *)
+  Fixpoint diverge_b (p q : list N) : bool :=
+    match p, q with
+    | x :: p', y :: q' => if x =? y then diverge_b p' q' else true
+    | _, _ => false
+    end.
+
+  Lemma diverge_b_sound p : forall q, diverge_b p q = true -> paths_diverge p q.
+  Proof.
+    induction p as [|x p IH]; intros [|y q] H; cbn [diverge_b] in H; try discriminate.
+    destruct (x =? y) eqn:E.
+    - apply N.eqb_eq in E. subst y. destruct (IH q H) as (c & a & b & rp & rq & -> & -> & Hne).
+      exists (x :: c), a, b, rp, rq. repeat split; assumption || reflexivity.
+    - exists [], x, y, p, q. repeat split; try reflexivity. lia.
+  Qed.
+
+  Definition prop_eqb (a b : property) : bool := if property_eq_dec a b then true else false.
+  Fixpoint nodup_b {A} (eqb : A -> A -> bool) (l : list A) : bool :=
+    match l with
+    | [] => true
+    | x :: r => negb (existsb (eqb x) r) && nodup_b eqb r
+    end.
+
+  Lemma nodup_b_sound {A} (eqb : A -> A -> bool) (l : list A) :
+    (forall a b, a = b -> eqb a b = true) -> nodup_b eqb l = true -> NoDup l.
+  Proof.
+    intros Heq. induction l as [|x r IH]; intros H; [constructor|]. cbn [nodup_b] in H.
+    apply andb_true_iff in H as [H1 H2]. constructor; [|apply IH; exact H2].
+    intros Hin. apply negb_true_iff in H1. assert (E : existsb (eqb x) r = true) by (apply existsb_exists; exists x; split; [exact Hin|apply Heq; reflexivity]).
+    congruence.
+  Qed.
+
+  Definition path_eqb (a b : list N) : bool := if list_eq_dec N.eq_dec a b then true else false.
+
+  Definition siblings_ok_b (L : list property) (l : property) : bool :=
+    let a := removelast (p_path l) in
+    let n := last (p_path l) 0 in
+    forallb (fun s => negb (s =? n) && existsb (fun l2 => path_eqb (p_path l2) (a ++ [s])) L) (p_siblings l).
+
+  Definition props_ok_b (ps : list property) : bool :=
+    let L := leaves ps in
+    nodup_b bytes_eqb (map p_json ps) && nodup_b prop_eqb L &&
+    forallb (fun l => match p_path l with [] => false | _ => true end) L &&
+    forallb (fun l1 => forallb (fun l2 => prop_eqb l1 l2 || diverge_b (p_path l1) (p_path l2)) L) L &&
+    forallb (siblings_ok_b L) L &&
+    forallb (fun p => match p_path p with
+                      | [] => match p_ty p with
+                              | FOneof r => match lookup env r with Some (SOneof _) => true | _ => false end
+                              | _ => false
+                              end
+                      | _ => true
+                      end) ps &&
+    forallb (fun p => valid_utf8 (p_json p)) ps && forallb (fun l => valid_utf8 (p_json l)) L.
+
+  Lemma props_ok_b_sound ps : props_ok_b ps = true -> props_ok ps.
+  Proof.
+    unfold props_ok_b. intros H.
+    apply andb_true_iff in H as [H Hul]. apply andb_true_iff in H as [H Hu]. apply andb_true_iff in H as [H Hexp].
+    apply andb_true_iff in H as [H Hs]. apply andb_true_iff in H as [H Hd].
+    apply andb_true_iff in H as [H Hp]. apply andb_true_iff in H as [Hn Hnd].
+    constructor.
+    - apply (nodup_b_sound bytes_eqb); [intros a b ->; apply bytes_eqb_refl|exact Hn].
+    - apply (nodup_b_sound prop_eqb); [|exact Hnd]. intros a b ->. unfold prop_eqb. destruct (property_eq_dec b b); [reflexivity|congruence].
+    - intros l Hl. rewrite forallb_forall in Hp. specialize (Hp l Hl). destruct (p_path l); [discriminate|discriminate].
+    - intros l1 l2 H1 H2 Hne. rewrite forallb_forall in Hd. specialize (Hd l1 H1). rewrite forallb_forall in Hd. specialize (Hd l2 H2).
+      apply orb_true_iff in Hd as [He|Hdv]; [|apply diverge_b_sound; exact Hdv].
+      unfold prop_eqb in He. destruct (property_eq_dec l1 l2); [contradiction|discriminate].
+    - intros l a n s Hl Hpath Hsib. rewrite forallb_forall in Hs. specialize (Hs l Hl). unfold siblings_ok_b in Hs.
+      rewrite forallb_forall in Hs. specialize (Hs s Hsib). apply andb_true_iff in Hs as [Hne Hex].
+      rewrite Hpath in Hne, Hex. rewrite removelast_last in Hex. rewrite last_last in Hne.
+      split; [apply negb_true_iff in Hne; lia|].
+      apply existsb_exists in Hex as (l2 & Hl2 & He). exists l2. split; [exact Hl2|].
+      unfold path_eqb in He. destruct (list_eq_dec N.eq_dec (p_path l2) (a ++ [s])); [assumption|discriminate].
+    - intros p0 Hp0 Hpath. rewrite forallb_forall in Hexp. specialize (Hexp p0 Hp0). rewrite Hpath in Hexp.
+      destruct (p_ty p0) as [| | |r| | |]; try discriminate. destruct (lookup env r) as [[|qs|]|] eqn:El; try discriminate.
+      exists r, qs. split; [reflexivity|exact El].
+    - intros p0 Hp0. rewrite forallb_forall in Hu. apply Hu. exact Hp0.
+    - intros l Hl. rewrite forallb_forall in Hul. apply Hul. exact Hl.
+  Qed.
+
+End RT.
+
+(* ---------------------------------------------------------------- the hypothesis on oneof member names, decided *)
+Definition oneof_names_ok_b (e : env) : bool :=
+  forallb (fun ns => match snd ns with
+                     | SOneof ps => nodup_b bytes_eqb (map p_json ps) &&
+                                    forallb (fun q => negb (bytes_eqb (p_json q) txt_type)) ps
+                     | _ => true
+                     end) e.
+
+Lemma lookup_in (e : env) name s : lookup e name = Some s -> exists n', In (n', s) e.
+Proof.
+  induction e as [|[n0 s0] r IH]; cbn [lookup]; [discriminate|].
+  destruct (bytes_eqb n0 name); [intros [= <-]; exists n0; left; reflexivity|].
+  intros H. destruct (IH H) as (n' & Hin). exists n'. right. exact Hin.
+Qed.
+
+Lemma oneof_names_ok_b_sound (e : env) : oneof_names_ok_b e = true -> oneof_names_ok e.
+Proof.
+  unfold oneof_names_ok_b, oneof_names_ok. intros H name ps Hlk. rewrite forallb_forall in H.
+  destruct (lookup_in _ _ _ Hlk) as (n' & Hin). specialize (H _ Hin). cbn [snd] in H.
+  apply andb_true_iff in H as [H1 H2]. split.
+  - apply (nodup_b_sound bytes_eqb); [intros a b ->; apply bytes_eqb_refl|exact H1].
+  - intros q Hq E. rewrite forallb_forall in H2. specialize (H2 q Hq). rewrite E, bytes_eqb_refl in H2. discriminate.
+Qed.
+
+Lemma oneofs_flat_b_sound (e : env) :
+  forallb (fun ns => match snd ns with
+                     | SOneof ps => forallb (fun p => match p_path p with [] => false | _ => true end) ps
+                     | _ => true
+                     end) e = true -> oneofs_flat e.
+Proof.
+  intros H name ps Hlk. rewrite forallb_forall in H. destruct (lookup_in _ _ _ Hlk) as (n' & Hin).
+  specialize (H _ Hin). cbn [snd] in H. apply Forall_forall. intros p Hp. rewrite forallb_forall in H.
+  specialize (H p Hp). destruct (p_path p); [discriminate|discriminate].
+Qed.
+
+(* the premises about strconv and time.Parse are jointly satisfiable *)
+Definition inst_fmt (is32 : bool) (bits : N) : bytes := print_Z (Z.of_N bits).
+Definition inst_parse_float (is32 : bool) (s : bytes) : option N := parse_N s.
+Lemma premises_satisfiable :
+  float_text_ok inst_fmt /\ float_roundtrip inst_fmt inst_parse_float /\ time_parse_extends parse_rfc3339.
+Proof.
+  split; [intros is32 bits _; apply print_Z_valid_number|].
+  split; [|intros s r H; exact H].
+  intros is32 bits _ _. unfold inst_fmt, inst_parse_float. rewrite parse_N_print_nat by lia. rewrite N2Z.id. reflexivity.
+Qed.
+
+(* arrays and maps hold scalars, enums, objects or oneofs (what the reflector builds); the decoder
+   family's model refuses other element types before looking at the elements *)
+Definition ty_ok (t : field_ty) : bool :=
+  match t with FArray it | FMap it => item_ok it | _ => true end.
+Definition env_items_ok (e : env) : Prop :=
+  forall r ps, lookup e r = Some (SObject ps) \/ lookup e r = Some (SOneof ps) ->
+    forall p, In p ps -> ty_ok (p_ty p) = true.
+Definition env_items_ok_b (e : env) : bool :=
+  forallb (fun ns => match snd ns with
+                     | SObject ps | SOneof ps => forallb (fun p => ty_ok (p_ty p)) ps
+                     | SEnum _ _ => true
+                     end) e.
+Lemma env_items_ok_b_sound e : env_items_ok_b e = true -> env_items_ok e.
+Proof.
+  intros H r ps Hlk p Hp. unfold env_items_ok_b in H. rewrite forallb_forall in H.
+  destruct Hlk as [Hlk|Hlk]; destruct (lookup_in _ _ _ Hlk) as (n' & Hin); specialize (H _ Hin); cbn [snd] in H;
+    rewrite forallb_forall in H; apply H; exact Hp.
+Qed.
